@@ -1,8 +1,14 @@
-(* C02 — program-level simulation for the control fragment without each: the tree-level lowering (Pug/Lower.v) of
-   text, tags, buffered code, var / assignment / ++, if / else-if / else and while, executed by the executor model,
-   prints what the independent pug semantics S prescribes, keeps the variables related, and raises the execution
-   error exactly when S prescribes the while-bound error.  Expressions enter through three hypotheses (evaluation,
-   printing, flag monotonicity) that Proofs/C01EvalProofs.v discharges for the scalar fragment. *)
+(* C02 — program-level simulation for the control fragment: the tree-level lowering (Pug/Lower.v) of text, tags,
+   buffered code (escaped expressions; string / number / boolean literals), var / assignment / ++, if / else-if / else,
+   case / when / default, while, and each (with and without key) over a variable that holds an array of scalars,
+   executed by the executor model, prints what the independent pug semantics S prescribes, keeps the live variables
+   related, and raises the execution error exactly when S prescribes the while-bound error.
+   Scoping: the engine never pops a variable, pug scopes the variables of an each to the loop; the relation [R D] says
+   nothing about the dead names [D] (each-variables outside their loop, the engine's `global`) and the lowering admits no
+   mention of a dead name.  Heaps: the fragment never writes one; a collection is related through the two heaps as they are.
+   Expressions enter through hypotheses (evaluation, printing, ===, flag monotonicity, purity) that Proofs/C02InstProofs.v
+   discharges for the scalar fragment of Proofs/C01EvalProofs.v. *)
+From PV Require Proofs.C01EvalProofs.
 From PV Require Import Base.Bytes Base.Escape Js.Ast Tmpl.Value Tmpl.IR Tmpl.Runtime Tmpl.Exec Pug.Ast Pug.Compile
   Pug.Lower Spec.Sem Proofs.ExecMono Proofs.C01Proofs Proofs.C02Proofs Proofs.C03Proofs.
 Lemma cap_is_limit : while_cap = while_limit.
@@ -68,7 +74,7 @@ Proof. intros H. unfold env_get, env_set. rewrite (lookup_insert_other x y j env
 Section Sim.
   Variable funcs : list bytes.
   Variable goodb : jexpr -> bool.
-  Variable names : list bytes.                   (* the variables the program may mention *)
+  Variable names : list bytes.                   (* the scalar variables: what expressions may mention *)
   Variable globals : list (bytes * jv).
   (* how engine values stand for JavaScript values, and which JavaScript values the domain admits *)
   Variable vr : val -> jv -> Prop.
@@ -77,63 +83,98 @@ Section Sim.
   Hypothesis vr_bool : forall v b, vr v (JB b) -> v = VBool b \/ v = VGoBool b.
   Hypothesis vr_num : forall v z, vr v (JN z) -> v = VInt z \/ v = VNum z.
   Hypothesis vr_num_intro : forall z, vr (VNum z) (JN z).
+  Hypothesis vr_int_intro : forall z, vr (VInt z) (JN z).
+  Hypothesis vr_noref : forall v j, vr v j -> is_ref j = false.
+  Hypothesis vr_nullish : forall v j, vr v j -> j = JUndef \/ j = JNul -> v = VNil \/ v = VInvalid.
+  Hypothesis vr_gostr_intro : forall t, vr (VGoStr t) (JS t).
   Hypothesis okj_num : forall z, in_range z = true -> okj (JN z).
+  Hypothesis okj_str : forall t, okj (JS t).
 
-  Definition env_vr (vs : vars) (env : list (bytes * jv)) : Prop :=
-    forall x, In x names -> vr (var_val vs x) (env_get env x).
-  Definition env_ok (env : list (bytes * jv)) : Prop := forall x, In x names -> okj (env_get env x).
+  (* a collection: an array of related scalars, or a data map (a Go map: iterated in sorted key order) whose members
+     in that order are S's properties in their order, at some location of either heap (the fragment never writes a heap) *)
+  Definition coll_arr (h : heap) (jh : jheap) (v : val) (j : jv) : Prop :=
+    exists l l' items jitems,
+      v = VArr l /\ j = JA l' /\ hget h l = Some (OArr items) /\ jget jh l' = Some (JArrO jitems) /\
+      Forall2 (fun a b => vr a b /\ okj b) items jitems /\ in_range (Z.of_nat (length jitems)) = true.
+  Definition coll_map (h : heap) (jh : jheap) (v : val) (j : jv) : Prop :=
+    exists l l' items props,
+      v = VMap l /\ j = JO l' /\ hget h l = Some (OMap items []) /\ jget jh l' = Some (JObjO props) /\
+      Forall2 (fun k p => k = fst p /\ vr (member_lookup items k) (snd p) /\ okj (snd p)) (sort_bytes (keys items)) props.
+  Definition coll (h : heap) (jh : jheap) (v : val) (j : jv) : Prop := coll_arr h jh v j \/ coll_map h jh v j.
+  Definition wr (h : heap) (jh : jheap) (v : val) (j : jv) : Prop := vr v j \/ coll h jh v j.
 
-  Record R (s : xstate) (g : sstate) : Prop := {
+  (* [D]: the dead names — what the engine holds there is not related to S (a finished each leaves its variables set,
+     pug drops them; the engine's `global`); the lowering admits no mention of a dead name *)
+  Record R (D : list bytes) (s : xstate) (g : sstate) : Prop := {
     R_live : live s;
-    R_env : env_vr (f_vars (cur s)) (s_env g);
-    R_rng : env_ok (s_env g);
+    R_env : forall x, mem x D = false -> In x names -> vr (var_val (f_vars (cur s)) x) (env_get (s_env g) x);
+    R_rng : forall x, mem x D = false -> In x names -> okj (env_get (s_env g) x);
+    R_all : forall x, mem x D = false -> wr (x_heap s) (s_heap g) (var_val (f_vars (cur s)) x) (env_get (s_env g) x);
     R_out : output s = soutput g;
+    R_grown : s_grown g = [];          (* no object of S was grown from {} (the fragment has no member assignment) *)
   }.
-
-  Lemma env_vr_set vs env x v j : env_vr vs env -> vr v j -> env_vr (var_set vs x v) (env_set env x j).
-  Proof.
-    intros He Hr y Hy. destruct (list_eq_dec ascii_dec x y) as [->|Hn].
-    - rewrite var_val_set_same, env_get_set_same. exact Hr.
-    - rewrite (var_val_set_other _ _ _ _ Hn), (env_get_set_other _ _ _ _ Hn). exact (He y Hy).
-  Qed.
-  Lemma env_ok_set env x j : env_ok env -> okj j -> env_ok (env_set env x j).
-  Proof.
-    intros He Hj y Hy. destruct (list_eq_dec ascii_dec x y) as [->|Hn].
-    - rewrite env_get_set_same. exact Hj.
-    - rewrite (env_get_set_other _ _ _ _ Hn). exact (He y Hy).
-  Qed.
 
   Lemma cur_set_vars s vs : f_vars (cur (set_vars s vs)) = vs.
   Proof. unfold set_vars. rewrite cur_set_cur. reflexivity. Qed.
+  Lemma cur_set_heap s h : cur (set_heap s h) = cur s.
+  Proof. reflexivity. Qed.
+  Lemma heap_set_vars s vs : x_heap (set_vars s vs) = x_heap s.
+  Proof. reflexivity. Qed.
+  Lemma output_set_vars s vs : output (set_vars s vs) = output s.
+  Proof. reflexivity. Qed.
 
-  Lemma R_after_test s g p v h1 : fst p = [] -> R s g -> R (after_test s p v h1) g.
+  (* every step of the fragment: heaps and output as given, each live name either untouched on both sides or set to
+     related scalars *)
+  Lemma R_update D s g s' g' :
+    R D s g -> live s' -> x_heap s' = x_heap s -> s_heap g' = s_heap g -> s_grown g' = s_grown g ->
+    output s' = soutput g' ->
+    (forall x, mem x D = false ->
+       (var_val (f_vars (cur s')) x = var_val (f_vars (cur s)) x /\ env_get (s_env g') x = env_get (s_env g) x) \/
+       (vr (var_val (f_vars (cur s')) x) (env_get (s_env g') x) /\ okj (env_get (s_env g') x))) ->
+    R D s' g'.
   Proof.
-    intros Hp [Hl He Hk Ho]. unfold after_test. rewrite Hp. cbn [set_decl fold_left]. split.
-    - apply set_vars_live.
-    - rewrite cur_set_vars. exact He.
-    - exact Hk.
-    - exact Ho.
+    intros [Hl He Hk Ha Ho Hgr] Hl' Hh Hj Hg' Ho' Hx. split.
+    - exact Hl'.
+    - intros x Hd Hn. destruct (Hx x Hd) as [[-> ->]|[H _]]; [exact (He x Hd Hn)|exact H].
+    - intros x Hd Hn. destruct (Hx x Hd) as [[_ ->]|[_ H]]; [exact (Hk x Hd Hn)|exact H].
+    - intros x Hd. rewrite Hh, Hj. destruct (Hx x Hd) as [[-> ->]|[H _]]; [exact (Ha x Hd)|left; exact H].
+    - exact Ho'.
+    - rewrite Hg'. exact Hgr.
   Qed.
 
-  Lemma R_env_out s g g' : R s g -> s_env g' = s_env g -> s_out g' = s_out g -> R s g'.
+  Lemma R_weaken D D' s g : (forall x, mem x D' = false -> mem x D = false) -> R D s g -> R D' s g.
   Proof.
-    intros [Hl He Hk Ho] E1 E2. split; [exact Hl|rewrite E1; exact He|rewrite E1; exact Hk|unfold soutput; rewrite E2; exact Ho].
+    intros Hs [Hl He Hk Ha Ho Hgr]. split; [exact Hl| | | |exact Ho|exact Hgr].
+    - intros x Hd. exact (He x (Hs x Hd)).
+    - intros x Hd. exact (Hk x (Hs x Hd)).
+    - intros x Hd. exact (Ha x (Hs x Hd)).
   Qed.
 
-  Lemma R_emit_put s g b : R s g -> R (emit s b) (put g b).
+  Lemma R_after_test D s g p v : fst p = [] -> R D s g -> R D (after_test s p v (x_heap s)) g.
   Proof.
-    intros [Hl He Hk Ho]. split; [exact Hl|exact He|exact Hk|rewrite output_emit, soutput_put, Ho; reflexivity].
+    intros Hp Rr. unfold after_test. rewrite Hp. cbn [set_decl fold_left].
+    apply (R_update D s g); [exact Rr|apply set_vars_live|reflexivity|reflexivity|reflexivity|exact (R_out D s g Rr)|].
+    intros x _. left. rewrite cur_set_vars. split; reflexivity.
   Qed.
 
-  Lemma R_assign s g x v j h1 :
-    R s g -> vr v j -> okj j ->
-    R (set_vars (set_heap s h1) (set_decl (f_vars (cur (set_heap s h1))) [x] v)) (with_env g (env_set (s_env g) x j)).
+  Lemma R_emit_put D s g b : R D s g -> R D (emit s b) (put g b).
   Proof.
-    intros [Hl He Hk Ho] Hr Hj. split.
-    - apply set_vars_live.
-    - rewrite cur_set_vars. cbn [set_decl fold_left with_env s_env]. apply env_vr_set; assumption.
-    - cbn [with_env s_env]. apply env_ok_set; assumption.
-    - exact Ho.
+    intros Rr. apply (R_update D s g); [exact Rr|exact (R_live D s g Rr)|reflexivity|reflexivity|reflexivity| |].
+    - rewrite output_emit, soutput_put, (R_out D s g Rr). reflexivity.
+    - intros x _. left. split; reflexivity.
+  Qed.
+
+  Lemma R_assign D s g x v j :
+    R D s g -> vr v j -> okj j ->
+    R D (set_vars (set_heap s (x_heap s)) (set_decl (f_vars (cur (set_heap s (x_heap s)))) [x] v))
+        (with_env g (env_set (s_env g) x j)).
+  Proof.
+    intros Rr Hv Hj.
+    apply (R_update D s g); [exact Rr|apply set_vars_live|reflexivity|reflexivity|reflexivity|exact (R_out D s g Rr)|].
+    intros y _. rewrite cur_set_vars. cbn [set_decl fold_left with_env s_env]. rewrite cur_set_heap.
+    destruct (list_eq_dec ascii_dec x y) as [->|Hn].
+    - right. rewrite var_val_set_same, env_get_set_same. split; assumption.
+    - left. rewrite (var_val_set_other _ _ _ _ Hn), (env_get_set_other _ _ _ _ Hn). split; reflexivity.
   Qed.
 
   (* ---- unfolding equations of S (Spec/Sem.v), one per construct of the fragment -------------------------- *)
@@ -186,6 +227,10 @@ Section Sim.
      if mem name void_tags then SOk (s2, m)
      else sdo b <- sem_nodes globals f m blk s2 body; let '(s3, m3) := b in SOk (put s3 (B "</" ++ name ++ B ">"), m3)).
   Proof. reflexivity. Qed.
+  Definition sem_buffered (s : sstate) (e : jexpr) (esc : bool) (m : list (bytes * mixin)) :=
+    (sdo s1 <- (sdo a <- sem_expr efuel s e; let '(v, s1) := a in
+                sdo p <- print_string s1 v; let '(t, s2) := p in SOk (put s2 (if esc then escape t else t)));
+     SOk (s1, m)).
   Lemma sem_code_print f m blk s e esc inl :
     printable e = true ->
     sem_node globals (S (S f)) m blk s (PCode [SExpr e] esc inl) =
@@ -193,6 +238,21 @@ Section Sim.
                 sdo p <- print_string s1 v; let '(t, s2) := p in SOk (put s2 (if esc then escape t else t)));
      SOk (s1, m)).
   Proof. intros Hp. destruct e; try discriminate Hp; reflexivity. Qed.
+  Lemma sem_code_str f m blk s t esc inl :
+    sem_node globals (S (S f)) m blk s (PCode [SExpr (JStr t)] esc inl) = sem_buffered s (JStr t) esc m.
+  Proof. reflexivity. Qed.
+  Lemma sem_code_num f m blk s z esc inl :
+    sem_node globals (S (S f)) m blk s (PCode [SExpr (JNum z)] esc inl) = sem_buffered s (JNum z) esc m.
+  Proof. reflexivity. Qed.
+  Lemma sem_code_null f m blk s esc inl :
+    sem_node globals (S (S f)) m blk s (PCode [SExpr JNull] esc inl) = sem_buffered s JNull esc m.
+  Proof. reflexivity. Qed.
+  Lemma sem_doctype f m blk s v :
+    sem_node globals (S f) m blk s (PDoctype v) = SOk (put s (B "<!DOCTYPE " ++ v ++ B ">" ++ [ascii_of_N 10]), m).
+  Proof. reflexivity. Qed.
+  Lemma sem_code_bool f m blk s b esc inl :
+    sem_node globals (S (S f)) m blk s (PCode [SExpr (JBool b)] esc inl) = sem_buffered s (JBool b) esc m.
+  Proof. reflexivity. Qed.
   Lemma sem_code_assign f m blk s x r inl :
     sem_node globals (S (S f)) m blk s (PCode [SExpr (JAssign None (JId x) r)] false inl) =
     (sdo s1 <- (sdo a <- sem_expr efuel s r; let '(v, s1) := a in SOk (with_env s1 (env_set (s_env s1) x v)));
@@ -224,6 +284,19 @@ Section Sim.
     cbn [eval_cmds eval_cmd call_ident eval_args eval_operand bind beqb]. rewrite Ev.
     destruct Hr as [Hv|Hv]; rewrite Hv; cbn; unfold rt_incdec, kind_of, mknum; cbn; rewrite Hz; reflexivity.
   Qed.
+  (* `null` prints nothing *)
+  Lemma null_action defs f dot s : exec_node defs (S f) dot s (NAction ([], [[AIdent (B "null")]])) = Ok (emit s []).
+  Proof.
+    cbn [exec_node]. unfold eval_pipeline, expr_fuel. cbn [snd]. change 400 with (S (S (S 397))).
+    cbn [eval_cmds eval_cmd call_ident bind]. rewrite beqb_refl. cbn [bind print_text of_opt].
+    rewrite set_heap_same. reflexivity.
+  Qed.
+  (* `$c` as a whole pipeline *)
+  Lemma avar_eval E h d c : eval_pipeline E h (d, [[AVar c []]]) = Ok (var_val (e_vars E) c, h).
+  Proof.
+    unfold eval_pipeline, expr_fuel. cbn [snd]. change 400 with (S (S 398)).
+    cbn [eval_cmds eval_cmd bind valid]. reflexivity.
+  Qed.
 
   Local Strategy opaque [eval_cmd eval_cmds eval_pipeline].
   Lemma decl_action defs f dot s x a v :
@@ -243,76 +316,215 @@ Section Sim.
   Lemma print_string_noerr g v fl : print_string g v <> SErr fl.
   Proof. unfold print_string, tostr. destruct v; try discriminate; destruct (to_string _ _ _); discriminate. Qed.
 
+  Lemma cons_not_self {A} (x : A) l : x :: l <> l.
+  Proof. intros H. apply (f_equal (@length A)) in H. cbn in H. lia. Qed.
+
+  Lemma print_string_same g v t g2 : print_string g v = SOk (t, g2) -> s_flags g2 = s_flags g -> g2 = g.
+  Proof.
+    unfold print_string, tostr. destruct v; intros H Hf;
+      try (inversion H; subst; reflexivity);
+      destruct (to_string _ _ _); inversion H; subst; cbn [is_ref] in *; try reflexivity;
+      exfalso; exact (cons_not_self _ _ Hf).
+  Qed.
+
   (* ---- what is assumed about expressions (discharged for the scalar fragment in Proofs/C01EvalProofs.v) -- *)
   Definition lx := lexpr funcs goodb.
+  Definition lxd := lexprd funcs goodb.
+  (* the variables an expression mentions hold related scalars *)
+  Definition on_vars (e : jexpr) (vs : vars) (env : list (bytes * jv)) : Prop :=
+    forall x, In x (evars e) -> vr (var_val vs x) (env_get env x) /\ okj (env_get env x).
+
   Hypothesis H_eval : forall e, goodb e = true ->
-    forall E h g j g', env_vr (e_vars E) (s_env g) -> env_ok (s_env g) ->
+    forall E h g j g', on_vars e (e_vars E) (s_env g) ->
       sem_expr efuel g e = SOk (j, g') -> s_flags g' = s_flags g ->
-      exists a v, lx e = Some a /\ (forall d, eval_pipeline E h (d, [[a]]) = Ok (v, h)) /\ vr v j /\ okj j /\
-                  s_env g' = s_env g /\ s_out g' = s_out g.
+      exists a v, lx e = Some a /\ (forall d, eval_pipeline E h (d, [[a]]) = Ok (v, h)) /\ vr v j /\ okj j.
+  Hypothesis H_same : forall e, goodb e = true ->
+    forall g j g', sem_expr efuel g e = SOk (j, g') -> s_flags g' = s_flags g -> g' = g.
   Hypothesis H_mono : forall e, goodb e = true ->
     forall g j g', sem_expr efuel g e = SOk (j, g') -> exists l, s_flags g' = l ++ s_flags g.
   Hypothesis H_noerr : forall e, goodb e = true -> forall g fl, sem_expr efuel g e <> SErr fl.
-  Hypothesis H_id : forall x, goodb (JId x) = true -> In x names.
+  Hypothesis H_fv : forall e, goodb e = true -> forall x, In x (evars e) -> In x names.
   Hypothesis H_print : forall e, goodb e = true -> printable e = true ->
-    forall defs f dot s g g1 j t g2, R s g ->
-      sem_expr efuel g e = SOk (j, g1) -> print_string g1 j = SOk (t, g2) -> s_flags g2 = s_flags g ->
+    forall defs f dot s g j t, on_vars e (f_vars (cur s)) (s_env g) ->
+      sem_expr efuel g e = SOk (j, g) -> print_string g j = SOk (t, g) ->
       exists a, lx e = Some a /\
-                exec_node defs (S f) dot s (NAction ([], [a] :: esc_cmds false)) = Ok (emit s (escape t)) /\
-                s_env g2 = s_env g /\ s_out g2 = s_out g.
+                exec_node defs (S f) dot s (NAction ([], [a] :: esc_cmds false)) = Ok (emit s (escape t)).
+  (* the test of a when: `__op__eql e w` decides as === does *)
+  Hypothesis H_case : forall e w, goodb (JBin BSEq e w) = true ->
+    forall E h g v wv, on_vars e (e_vars E) (s_env g) -> on_vars w (e_vars E) (s_env g) ->
+      sem_expr efuel g e = SOk (v, g) -> sem_expr efuel g w = SOk (wv, g) ->
+      forall ea wa, lx e = Some ea -> lx w = Some wa ->
+      forall b, jv_strict_eq v wv = Some b ->
+      exists vb, eval_pipeline E h (eql_pipe ea wa) = Ok (vb, h) /\ truthy h vb = Ok b.
+
+  Lemma good_lx e a : lx e = Some a -> goodb e = true.
+  Proof. unfold lx, lexpr. destruct (goodb e); [reflexivity|discriminate]. Qed.
+  Lemma lxd_inv D e a : lxd D e = Some a -> alive D e = true /\ lx e = Some a.
+  Proof. unfold lxd, lexprd. destruct (alive D e); [intros H; split; [reflexivity|exact H]|discriminate]. Qed.
+
+  Lemma R_on_vars D s g e : R D s g -> goodb e = true -> alive D e = true -> on_vars e (f_vars (cur s)) (s_env g).
+  Proof.
+    intros Rr Hg Ha x Hx. unfold alive in Ha. rewrite forallb_forall in Ha. specialize (Ha x Hx).
+    apply negb_true_iff in Ha. pose proof (H_fv e Hg x Hx) as Hn.
+    split; [exact (R_env D s g Rr x Ha Hn)|exact (R_rng D s g Rr x Ha Hn)].
+  Qed.
 
   Let lw := lower funcs goodb.
 
-  (* ---- inversion of the lowering ------------------------------------------------------------------------- *)
-  Inductive code_shape (stmts : list jstmt) (esc : bool) (t : list tnode) : Prop :=
-  | CS_assign x r a : stmts = [SExpr (JAssign None (JId x) r)] -> esc = false -> lx r = Some a ->
-                      t = [NAction ([x], [[a]])] -> code_shape stmts esc t
-  | CS_inc x post : stmts = [SExpr (JUn UInc post (JId x))] -> esc = false -> goodb (JId x) = true ->
-                    t = [NAction ([x], [[AIdent (B "__op__inc"); AVar x []]])] -> code_shape stmts esc t
-  | CS_var x i a : stmts = [SVar [JVar x (Some i)]] -> esc = false -> lx i = Some a ->
-                   t = [NAction ([x], [[a]])] -> code_shape stmts esc t
-  | CS_print e a : stmts = [SExpr e] -> printable e = true -> esc = true -> lx e = Some a ->
-                   t = [NAction ([], [a] :: esc_cmds (negb esc))] -> code_shape stmts esc t.
+  (* ---- S on each and case: the local loops of Spec/Sem.v named ------------------------------------------------ *)
+  Definition each_env (v : bytes) (k : option bytes) (env : list (bytes * jv)) (kv vv : jv) : list (bytes * jv) :=
+    let e1 := env_set env v vv in match k with Some k' => env_set e1 k' kv | None => e1 end.
+  Definition sem_iter (f : nat) (blk : option closure) (v : bytes) (k : option bytes) (body : list pnode) :=
+    fix go (fuel2 : nat) (s : sstate) (m : list (bytes * mixin)) (pairs : list (jv * jv)) {struct pairs}
+      : sres (sstate * list (bytes * mixin)) :=
+      match pairs with
+      | [] => SOk (s, m)
+      | (kv, vv) :: r =>
+        sdo b <- sem_nodes globals f m blk (with_env s (each_env v k (s_env s) kv vv)) body; let '(s2, m2) := b in
+        go fuel2 s2 m2 r
+      end.
+  Definition each_restore (v : bytes) (k : option bytes) (saved_v saved_k : option jv) (s : sstate) : sstate :=
+    let e1 := match saved_v with
+              | Some x => env_set (s_env s) v x
+              | None => filter (fun p => negb (beqb (fst p) v)) (s_env s) end in
+    let e2 := match k with
+              | Some k' => match saved_k with
+                           | Some x => env_set e1 k' x
+                           | None => filter (fun p => negb (beqb (fst p) k')) e1 end
+              | None => e1 end in
+    with_env s e2.
+  Definition jindexed (items : list jv) : list (jv * jv) :=
+    combine (map (fun i => JN (Z.of_nat i)) (seq 0 (length items))) items.
+  Definition each_tail (f : nat) (blk : option closure) (v : bytes) (k : option bytes) (body : list pnode)
+             (saved_v saved_k : option jv) (m : list (bytes * mixin)) (c : jv) (s1 : sstate)
+    : sres (sstate * list (bytes * mixin)) :=
+    match c with
+    | JA l =>
+      match jget (s_heap s1) l with
+      | Some (JArrO items) =>
+        sdo r <- sem_iter f blk v k body O s1 m (jindexed items);
+        let '(s2, m2) := r in SOk (each_restore v k saved_v saved_k s2, m2)
+      | _ => SOff
+      end
+    | JO l =>
+      match jget (s_heap s1) l with
+      | Some (JObjO props) =>
+        let s1' := if existsb (Nat.eqb l) (s_grown s1) then flag s1 fl_obj_grown else s1 in
+        sdo r <- sem_iter f blk v k body O s1' m (map (fun p => (JS (fst p), snd p)) props);
+        let '(s2, m2) := r in SOk (each_restore v k saved_v saved_k s2, m2)
+      | _ => SOff
+      end
+    | JUndef | JNul => SOk (s1, m)
+    | _ => SOff
+    end.
+  Lemma sem_each_eq f m blk s v k obj body :
+    sem_node globals (S f) m blk s (PEach v k obj body) =
+    (sdo a <- sem_expr efuel s obj; let '(c, s0) := a in
+     let saved_v := lookup v (s_env s0) in
+     let saved_k := match k with Some k' => lookup k' (s_env s0) | None => None end in
+     let s1 := match saved_v, saved_k with None, None => s0 | _, _ => flag s0 fl_loop_shadow end in
+     each_tail f blk v k body saved_v saved_k m c s1).
+  Proof. reflexivity. Qed.
 
-  Lemma lower_code_inv fl stmts esc inl t :
-    lw (S fl) (PCode stmts esc inl) = Some t -> code_shape stmts esc t.
+  Definition case_go (v : jv) :=
+    fix go (s : sstate) (l : list (option jexpr * list pnode)) {struct l} : sres (option (list pnode) * sstate) :=
+      match l with
+      | [] => SOk (None, s)
+      | (None, _) :: r => go s r
+      | (Some w, body) :: r =>
+        sdo b <- sem_expr efuel s w; let '(wv, s1) := b in
+        match jv_strict_eq v wv with
+        | Some true => SOk (Some body, s1)
+        | Some false => go s1 r
+        | None => SOff
+        end
+      end.
+  Definition case_run (f : nat) (m : list (bytes * mixin)) (blk : option closure)
+             (whens : list (option jexpr * list pnode)) (hit : option (list pnode)) (s2 : sstate) :=
+    match hit with
+    | Some body => sem_nodes globals f m blk s2 body
+    | None => match case_default whens with Some body => sem_nodes globals f m blk s2 body | None => SOk (s2, m) end
+    end.
+  Lemma sem_case_eq f m blk s e whens :
+    sem_node globals (S f) m blk s (PCase e whens) =
+    (sdo a <- sem_expr efuel s e; let '(v, s1) := a in
+     sdo c <- case_go v s1 whens; let '(hit, s2) := c in case_run f m blk whens hit s2).
+  Proof. reflexivity. Qed.
+
+  Lemma sem_id_eq s x : sem_expr efuel s (JId x) = SOk (env_get (s_env s) x, s).
+  Proof. reflexivity. Qed.
+  Lemma sem_str_eq s t : sem_expr efuel s (JStr t) = SOk (JS t, s).
+  Proof. reflexivity. Qed.
+  Lemma sem_num_eq s z : sem_expr efuel s (JNum z) = (sdo v <- num z; SOk (v, s)).
+  Proof. reflexivity. Qed.
+  Lemma sem_bool_eq s b : sem_expr efuel s (JBool b) = SOk (JB b, s).
+  Proof. reflexivity. Qed.
+  Lemma sem_null_eq s : sem_expr efuel s JNull = SOk (JNul, s).
+  Proof. reflexivity. Qed.
+
+  (* ---- inversion of the lowering ------------------------------------------------------------------------- *)
+  Inductive code_shape (D : list bytes) (stmts : list jstmt) (esc : bool) (t : list tnode) : Prop :=
+  | CS_assign x r a : stmts = [SExpr (JAssign None (JId x) r)] -> esc = false -> lxd D r = Some a ->
+                      t = [NAction ([x], [[a]])] -> code_shape D stmts esc t
+  | CS_inc x post : stmts = [SExpr (JUn UInc post (JId x))] -> esc = false -> goodb (JId x) = true -> mem x D = false ->
+                    t = [NAction ([x], [[AIdent (B "__op__inc"); AVar x []]])] -> code_shape D stmts esc t
+  | CS_var x i a : stmts = [SVar [JVar x (Some i)]] -> esc = false -> lxd D i = Some a ->
+                   t = [NAction ([x], [[a]])] -> code_shape D stmts esc t
+  | CS_print e a : stmts = [SExpr e] -> printable e = true -> esc = true -> lxd D e = Some a ->
+                   t = [NAction ([], [a] :: esc_cmds (negb esc))] -> code_shape D stmts esc t
+  | CS_str s : stmts = [SExpr (JStr s)] -> esc = true \/ escape s = s -> t = [NText (escape s)] -> code_shape D stmts esc t
+  | CS_num z : stmts = [SExpr (JNum z)] -> t = [NText (show_Z z)] -> code_shape D stmts esc t
+  | CS_bool b : stmts = [SExpr (JBool b)] -> t = [NText (if b then B "true" else B "false")] -> code_shape D stmts esc t
+  | CS_null : stmts = [SExpr JNull] -> t = [NAction ([], [[AIdent (B "null")]])] -> code_shape D stmts esc t.
+
+  Lemma lower_code_inv D stmts esc t : lower_code funcs goodb D stmts esc = Some t -> code_shape D stmts esc t.
   Proof.
-    unfold lw. cbn [lower]. fold lx. intros H.
+    unfold lower_code. fold lxd. intros H.
     destruct stmts as [|s1 [|s2 rest]]; try discriminate H.
     destruct s1 as [e|ds|c t0 e0|l|]; try discriminate H.
     - (* an expression statement *)
       destruct (printable e) eqn:Hp.
       + (* the generic buffered form *)
-        assert (G : (if printable e && esc then match lx e with Some a => Some [NAction ([], [a] :: esc_cmds (negb esc))] | None => None end
+        assert (G : (if printable e && esc then match lxd D e with Some a => Some [NAction ([], [a] :: esc_cmds (negb esc))] | None => None end
                      else None) = Some t).
         { destruct e; try discriminate Hp; exact H. }
         rewrite Hp in G. destruct esc; [|discriminate G]. cbn [andb] in G.
-        destruct (lx e) as [a|] eqn:L; [|discriminate G]. injection G as <-.
+        destruct (lxd D e) as [a|] eqn:L; [|discriminate G]. injection G as <-.
         eapply CS_print; [reflexivity|exact Hp|reflexivity|exact L|reflexivity].
-      + destruct e; try discriminate Hp; try (destruct esc; discriminate H).
+      + destruct e; try discriminate Hp; try (cbn [printable andb] in H; discriminate H).
+        * (* a number *) injection H as <-. eapply CS_num; reflexivity.
+        * (* a string *)
+          destruct (plain_text (escape s)); [|discriminate H]. cbn [andb] in H.
+          destruct esc; cbn [orb] in H.
+          -- injection H as <-. eapply CS_str; [reflexivity|left; reflexivity|reflexivity].
+          -- destruct (beqb (escape s) s) eqn:E; [|discriminate H]. injection H as <-. apply beqb_eq in E.
+             eapply CS_str; [reflexivity|right; exact E|reflexivity].
+        * (* a boolean *) injection H as <-. eapply CS_bool; reflexivity.
+        * (* null *) injection H as <-. eapply CS_null; reflexivity.
         * (* unary: only ++ on an identifier *)
-          destruct op; try (destruct esc; discriminate H).
-          destruct e; try (destruct esc; discriminate H).
-          destruct esc; [discriminate H|].
-          destruct (goodb (JId x)) eqn:Gx;
-            [|destruct (negb (is_ident x) || known funcs x); discriminate H].
-          destruct (negb (is_ident x) || known funcs x); [discriminate H|]. cbn [negb orb] in H. injection H as <-.
-          eapply CS_inc; [reflexivity|reflexivity|exact Gx|reflexivity].
+          destruct op; try (cbn [printable andb] in H; discriminate H).
+          destruct e; try (cbn [printable andb] in H; discriminate H).
+          destruct (esc || negb (is_ident x) || known funcs x || negb (goodb (JId x)) || mem x D) eqn:C; [discriminate H|].
+          injection H as <-.
+          apply orb_false_iff in C. destruct C as [C Cd]. apply orb_false_iff in C. destruct C as [C Cg].
+          apply orb_false_iff in C. destruct C as [C _]. apply orb_false_iff in C. destruct C as [Ce _].
+          apply negb_false_iff in Cg.
+          eapply CS_inc; [reflexivity|exact Ce|exact Cg|exact Cd|reflexivity].
         * (* assignment: only a plain one to an identifier *)
-          destruct op; try (destruct esc; discriminate H).
-          destruct e1; try (destruct esc; discriminate H).
-          destruct esc; [discriminate H|].
-          destruct (negb (is_ident x) || known funcs x); [discriminate H|].
-          destruct (lx e2) as [a|] eqn:L; [|discriminate H]. injection H as <-.
-          eapply CS_assign; [reflexivity|reflexivity|exact L|reflexivity].
+          destruct op; try (cbn [printable andb] in H; discriminate H).
+          destruct e1; try (cbn [printable andb] in H; discriminate H).
+          destruct (esc || negb (is_ident x) || known funcs x) eqn:C; [discriminate H|].
+          apply orb_false_iff in C. destruct C as [C _]. apply orb_false_iff in C. destruct C as [Ce _].
+          destruct (lxd D e2) as [a|] eqn:L; [|discriminate H]. injection H as <-.
+          eapply CS_assign; [reflexivity|exact Ce|exact L|reflexivity].
     - (* var *)
-      destruct ds as [|d1 [|d2 dr]]; try (destruct esc; discriminate H); try (destruct d1; try discriminate H; destruct init; discriminate H).
-      destruct d1; try (destruct esc; discriminate H).
-      destruct init as [i|]; try (destruct esc; discriminate H).
-      destruct esc; [discriminate H|].
-      destruct (negb (is_ident x)); [discriminate H|].
-      destruct (lx i) as [a|] eqn:L; [|discriminate H]. injection H as <-.
-      eapply CS_var; [reflexivity|reflexivity|exact L|reflexivity].
+      destruct ds as [|d1 [|d2 dr]]; try discriminate H; try (destruct d1; try discriminate H; destruct init; discriminate H).
+      destruct d1; try discriminate H.
+      destruct init as [i|]; try discriminate H.
+      destruct (esc || negb (is_ident x)) eqn:C; [discriminate H|].
+      apply orb_false_iff in C. destruct C as [Ce _].
+      destruct (lxd D i) as [a|] eqn:L; [|discriminate H]. injection H as <-.
+      eapply CS_var; [reflexivity|exact Ce|exact L|reflexivity].
     - (* several statements: not in the fragment *)
       exfalso.
       repeat match type of H with (match ?x with _ => _ end) = Some _ => destruct x; try discriminate H end.
@@ -323,6 +535,39 @@ Section Sim.
   Proof.
     cbn [lower_list]. destruct (f n) as [a|]; [|discriminate]. destruct (lower_list f r) as [b|]; [|discriminate].
     intros H; inversion H; subst. eauto.
+  Qed.
+
+  Lemma lower_each_inv D fl v k obj body t :
+    lw D (S fl) (PEach v k obj body) = Some t ->
+    exists c tb, obj = JId c /\ mem c D = false /\ mem v D = true /\
+                 (forall k', k = Some k' -> mem k' D = true /\ k' <> v) /\
+                 lower_list (lw (undead (v :: opt_list k) D) fl) body = Some tb /\
+                 t = [NRange (opt_list k ++ [v], [[AVar c []]]) tb []].
+  Proof.
+    unfold lw. cbn [lower]. destruct obj; try discriminate. 
+    match goal with |- (if ?c then _ else _) = _ -> _ => destruct c eqn:C end; [discriminate|].
+    destruct (lower_list (lower funcs goodb (undead (v :: opt_list k) D) fl) body) as [tb|] eqn:Eb; [|discriminate].
+    intros H. injection H as <-.
+    apply orb_false_iff in C. destruct C as [C Cvk]. apply orb_false_iff in C. destruct C as [C Ckd].
+    apply orb_false_iff in C. destruct C as [C Cvd]. apply orb_false_iff in C. destruct C as [C Ccd].
+    apply negb_false_iff in Cvd. apply negb_false_iff in Ckd.
+    exists x, tb. split; [reflexivity|]. split; [exact Ccd|]. split; [exact Cvd|]. split; [|split; reflexivity].
+    intros k' ->. cbn [opt_list forallb mem existsb] in Ckd, Cvk. rewrite andb_true_r in Ckd. rewrite orb_false_r in Cvk.
+    split; [exact Ckd|]. intros ->. rewrite beqb_refl in Cvk. discriminate Cvk.
+  Qed.
+
+  Lemma lower_case_inv D fl e whens t :
+    lw D (S fl) (PCase e whens) = Some t ->
+    exists ea el, lxd D e = Some ea /\
+                  match case_default whens with Some b => lower_list (lw D fl) b = Some el | None => el = [] end /\
+                  lower_whens funcs goodb (lower_list (lw D fl)) D e ea el whens = Some t.
+  Proof.
+    unfold lw. cbn [lower]. fold lxd. destruct (has_when whens); [|discriminate]. cbn [negb].
+    destruct (lxd D e) as [ea|]; [|discriminate].
+    destruct (case_default whens) as [b|].
+    - destruct (lower_list (lower funcs goodb D fl) b) as [el|] eqn:Eb; [|discriminate].
+      intros H. exists ea, el. split; [reflexivity|]. split; [reflexivity|exact H].
+    - intros H. exists ea, []. split; [reflexivity|]. split; [reflexivity|exact H].
   Qed.
 
   (* ---- S only ever adds flags (on the fragment) --------------------------------------------------------- *)
@@ -340,6 +585,8 @@ Section Sim.
     intros [l1 H1] H. destruct r as [[g' m']|fl| |]; cbn in *; try exact I;
       destruct H as [l2 H2]; exists (l2 ++ l1); rewrite H2, H1, app_assoc; reflexivity.
   Qed.
+  Lemma grows_same g g1 r : s_flags g1 = s_flags g -> grows g1 r -> grows g r.
+  Proof. intros H. apply grows_trans. exists []. exact H. Qed.
   Lemma grows_bind g r k :
     grows g r -> (forall g1 m1, r = SOk (g1, m1) -> grows g1 (k (g1, m1))) -> grows g (sbind r k).
   Proof.
@@ -347,9 +594,6 @@ Section Sim.
     - exact (grows_trans g g1 _ H1 (H2 g1 m1 eq_refl)).
     - exact H1.
   Qed.
-
-  Lemma good_lx e a : lx e = Some a -> goodb e = true.
-  Proof. unfold lx, lexpr. destruct (goodb e); [reflexivity|discriminate]. Qed.
 
   Lemma expr_grows g e a : lx e = Some a ->
     match sem_expr efuel g e with
@@ -362,6 +606,13 @@ Section Sim.
     - exact (H_mono e (good_lx e a Hl) g j g' E).
     - exact (H_noerr e (good_lx e a Hl) g fl E).
   Qed.
+  Lemma exprd_grows D g e a : lxd D e = Some a ->
+    match sem_expr efuel g e with
+    | SOk (_, g') => exists l, s_flags g' = l ++ s_flags g
+    | SErr _ => False
+    | _ => True
+    end.
+  Proof. intros Hl. exact (expr_grows g e a (proj2 (lxd_inv D e a Hl))). Qed.
 
   Lemma to_boolean_flags g v b g2 : to_boolean g v = (b, g2) -> exists l, s_flags g2 = l ++ s_flags g.
   Proof.
@@ -372,13 +623,13 @@ Section Sim.
         first [exists []; reflexivity | exists [fl_empty_truthy]; reflexivity].
   Qed.
 
-  Definition G_nodes (fs : nat) : Prop := forall ns m blk g fl t,
-    lower_list (lw fl) ns = Some t -> grows g (sem_nodes globals fs m blk g ns).
-  Definition G_node (fs : nat) : Prop := forall n m blk g fl t,
-    lw fl n = Some t -> grows g (sem_node globals fs m blk g n).
+  Definition G_nodes (fs : nat) : Prop := forall ns m blk g D fl t,
+    lower_list (lw D fl) ns = Some t -> grows g (sem_nodes globals fs m blk g ns).
+  Definition G_node (fs : nat) : Prop := forall n m blk g D fl t,
+    lw D fl n = Some t -> grows g (sem_node globals fs m blk g n).
 
-  Lemma while_grows f blk test body a fl tb :
-    G_nodes f -> lx test = Some a -> lower_list (lw fl) body = Some tb ->
+  Lemma while_grows f blk test body a D fl tb :
+    G_nodes f -> lx test = Some a -> lower_list (lw D fl) body = Some tb ->
     forall fuel2 budget g m, grows g (sem_while f blk test body budget fuel2 g m).
   Proof.
     intros IH Ht Hb. induction fuel2 as [|f2 IHf]; intros budget g m; [exact I|].
@@ -386,114 +637,255 @@ Section Sim.
     destruct (sem_expr efuel g test) as [[v g1]|fl0| |]; cbn [sbind]; try exact I; try contradiction.
     destruct v as [| |[|]| | | |]; try exact I.
     - destruct budget as [|b].
-      + apply (grows_trans g g1 _ Hg). apply grows_bind; [exact (IH body m blk g1 fl tb Hb)|].
+      + apply (grows_trans g g1 _ Hg). apply grows_bind; [exact (IH body m blk g1 D fl tb Hb)|].
         intros g2 m2 E2. pose proof (expr_grows g2 test a Ht) as Hg2.
         destruct (sem_expr efuel g2 test) as [[v2 g3]|fl0| |]; cbn [sbind]; try exact I; try contradiction.
         cbn [snd]. exact Hg2.
-      + apply (grows_trans g g1 _ Hg). apply grows_bind; [exact (IH body m blk g1 fl tb Hb)|].
+      + apply (grows_trans g g1 _ Hg). apply grows_bind; [exact (IH body m blk g1 D fl tb Hb)|].
         intros g2 m2 E2. apply IHf.
     - cbn. exact Hg.
   Qed.
 
-  Lemma code_grows f0 m blk g stmts esc inl t :
-    code_shape stmts esc t -> grows g (sem_node globals (S f0) m blk g (PCode stmts esc inl)).
+  Lemma buffered_grows g e esc m :
+    match sem_expr efuel g e with
+    | SOk (_, g') => exists l, s_flags g' = l ++ s_flags g
+    | SErr _ => False
+    | _ => True
+    end -> grows g (sem_buffered g e esc m).
+  Proof.
+    intros Hg. unfold sem_buffered.
+    destruct (sem_expr efuel g e) as [[v g1]|fl0| |]; cbn [sbind]; try exact I; try contradiction.
+    destruct (print_string g1 v) as [[tx g2]|fl1| |] eqn:Ep; cbn [sbind]; try exact I;
+      try (exfalso; exact (print_string_noerr g1 v fl1 Ep)).
+    destruct (print_string_flags g1 v tx g2 Ep) as [l2 H2]. destruct Hg as [l1 H1].
+    exists (l2 ++ l1). cbn. rewrite H2, H1, app_assoc. reflexivity.
+  Qed.
+
+  Lemma code_grows f0 m blk g D stmts esc inl t :
+    code_shape D stmts esc t -> grows g (sem_node globals (S f0) m blk g (PCode stmts esc inl)).
   Proof.
     intros Hs. destruct f0 as [|f]; [destruct Hs; subst; exact I|]. revert Hs.
-    intros [x r a -> -> La _|x post -> -> _ _|x i a -> -> La _|e a -> Hp -> La _].
-    - rewrite sem_code_assign. pose proof (expr_grows g r a La) as Hg.
+    intros [x r a -> -> La _|x post -> -> _ _ _|x i a -> -> La _|e a -> Hp -> La _|s -> _ _|z -> _|b -> _| -> _].
+    - rewrite sem_code_assign. pose proof (exprd_grows D g r a La) as Hg.
       destruct (sem_expr efuel g r) as [[v g1]|fl0| |]; cbn [sbind]; try exact I; try contradiction. exact Hg.
     - rewrite sem_code_inc. destruct (env_get (s_env g) x); cbn [sbind]; try exact I.
       unfold num. destruct (in_range (z + 1)); cbn [sbind]; [exists []; reflexivity|exact I].
-    - rewrite sem_code_var. pose proof (expr_grows g i a La) as Hg.
+    - rewrite sem_code_var. pose proof (exprd_grows D g i a La) as Hg.
       destruct (sem_expr efuel g i) as [[v g1]|fl0| |]; cbn [sbind]; try exact I; try contradiction. exact Hg.
-    - rewrite (sem_code_print f m blk g e true inl Hp). pose proof (expr_grows g e a La) as Hg.
-      destruct (sem_expr efuel g e) as [[v g1]|fl0| |]; cbn [sbind]; try exact I; try contradiction.
-      destruct (print_string g1 v) as [[tx g2]|fl1| |] eqn:Ep; cbn [sbind]; try exact I;
-        try (exfalso; exact (print_string_noerr g1 v fl1 Ep)).
-      destruct (print_string_flags g1 v tx g2 Ep) as [l2 H2]. destruct Hg as [l1 H1].
-      exists (l2 ++ l1). cbn. rewrite H2, H1, app_assoc. reflexivity.
+    - rewrite (sem_code_print f m blk g e true inl Hp). fold (sem_buffered g e true m). apply buffered_grows. exact (exprd_grows D g e a La).
+    - rewrite sem_code_str. apply buffered_grows. rewrite sem_str_eq. exists []. reflexivity.
+    - rewrite sem_code_num. apply buffered_grows. rewrite sem_num_eq. unfold num.
+      destruct (in_range z); cbn [sbind]; [exists []; reflexivity|exact I].
+    - rewrite sem_code_bool. apply buffered_grows. rewrite sem_bool_eq. exists []. reflexivity.
+    - rewrite sem_code_null. apply buffered_grows. rewrite sem_null_eq. exists []. reflexivity.
+  Qed.
+
+  (* each *)
+  Lemma iter_grows f blk v k body D fl tb :
+    G_nodes f -> lower_list (lw D fl) body = Some tb ->
+    forall pairs g m, grows g (sem_iter f blk v k body O g m pairs).
+  Proof.
+    intros IH Hb. induction pairs as [|[kv vv] r IHr]; intros g m; [apply grows_refl|].
+    cbn [sem_iter]. apply grows_bind.
+    - apply (grows_same g (with_env g (each_env v k (s_env g) kv vv))); [reflexivity|].
+      exact (IH body m blk _ D fl tb Hb).
+    - intros g1 m1 _. apply IHr.
+  Qed.
+
+  Lemma each_tail_grows f blk v k body D fl tb sv sk m c g :
+    G_nodes f -> lower_list (lw D fl) body = Some tb -> grows g (each_tail f blk v k body sv sk m c g).
+  Proof.
+    intros IH Hb. unfold each_tail. destruct c; try exact I; try apply grows_refl.
+    - destruct (jget (s_heap g) l) as [[items|props]|]; try exact I.
+      apply grows_bind; [exact (iter_grows f blk v k body D fl tb IH Hb _ g m)|].
+      intros g1 m1 _. exists []. reflexivity.
+    - destruct (jget (s_heap g) l) as [[items|props]|]; try exact I. cbv zeta.
+      apply (grows_trans g (if existsb (Nat.eqb l) (s_grown g) then flag g fl_obj_grown else g)).
+      + destruct (existsb (Nat.eqb l) (s_grown g)); [exists [fl_obj_grown]|exists []]; reflexivity.
+      + apply grows_bind; [exact (iter_grows f blk v k body D fl tb IH Hb _ _ m)|].
+        intros g1 m1 _. exists []. reflexivity.
+  Qed.
+
+  Lemma each_grows f blk v k c body D fl tb m g :
+    G_nodes f -> lower_list (lw D fl) body = Some tb ->
+    grows g (sem_node globals (S f) m blk g (PEach v k (JId c) body)).
+  Proof.
+    intros IH Hb. rewrite sem_each_eq, sem_id_eq. cbn [sbind]. cbv zeta.
+    match goal with |- grows g (each_tail _ _ _ _ _ _ _ _ _ ?s1) => apply (grows_trans g s1) end.
+    - destruct (lookup v (s_env g)); [exists [fl_loop_shadow]; reflexivity|].
+      destruct (match k with Some k' => lookup k' (s_env g) | None => None end);
+        [exists [fl_loop_shadow]|exists []]; reflexivity.
+    - exact (each_tail_grows f blk v k body D fl tb _ _ m _ _ IH Hb).
+  Qed.
+
+  (* case: the tests only add flags; the body that is hit is one the lowering accepted *)
+  Lemma case_go_grows lowers D e ea el v : forall l t g,
+    lower_whens funcs goodb lowers D e ea el l = Some t ->
+    match case_go v g l with
+    | SOk (hit, g') => (exists l0, s_flags g' = l0 ++ s_flags g) /\
+                       match hit with Some body => exists b, lowers body = Some b | None => True end
+    | SErr _ => False
+    | _ => True
+    end.
+  Proof.
+    induction l as [|[[w|] body] r IH]; intros t g Hl.
+    - cbn [case_go]. split; [exists []; reflexivity|exact I].
+    - cbn [lower_whens] in Hl. fold lxd in Hl. destruct (goodb (JBin BSEq e w)); [|discriminate].
+      destruct (lxd D w) as [wa|] eqn:Lw; [|discriminate].
+      destruct (lowers body) as [b|] eqn:Lb; [|discriminate].
+      destruct (lower_whens funcs goodb lowers D e ea el r) as [rest|] eqn:Lr; [|discriminate].
+      cbn [case_go]. pose proof (exprd_grows D g w wa Lw) as Hg.
+      destruct (sem_expr efuel g w) as [[wv g1]|fl0| |]; cbn [sbind]; try exact I; try contradiction.
+      destruct (jv_strict_eq v wv) as [[|]|]; try exact I.
+      + split; [exact Hg|exists b; exact Lb].
+      + specialize (IH rest g1 eq_refl). destruct (case_go v g1 r) as [[hit g']|fl0| |]; try exact I; try contradiction.
+        destruct IH as [[l2 H2] Hh]. destruct Hg as [l1 H1]. split; [|exact Hh].
+        exists (l2 ++ l1). rewrite H2, H1, app_assoc. reflexivity.
+    - cbn [lower_whens] in Hl. cbn [case_go]. exact (IH t g Hl).
+  Qed.
+
+  Lemma case_run_grows f m blk whens D fl el hit g :
+    G_nodes f ->
+    match case_default whens with Some b => lower_list (lw D fl) b = Some el | None => el = [] end ->
+    match hit with Some body => exists b, lower_list (lw D fl) body = Some b | None => True end ->
+    grows g (case_run f m blk whens hit g).
+  Proof.
+    intros IH Hd Hh. unfold case_run. destruct hit as [body|].
+    - destruct Hh as [b Hb]. exact (IH body m blk g D fl b Hb).
+    - destruct (case_default whens) as [body|]; [exact (IH body m blk g D fl el Hd)|apply grows_refl].
+  Qed.
+
+  Lemma case_grows f m blk g D fl e whens t :
+    G_nodes f -> lw D (S fl) (PCase e whens) = Some t -> grows g (sem_node globals (S f) m blk g (PCase e whens)).
+  Proof.
+    intros IH Hl. destruct (lower_case_inv D fl e whens t Hl) as [ea [el [Le [Hd Hw]]]].
+    rewrite sem_case_eq. pose proof (exprd_grows D g e ea Le) as Hg.
+    destruct (sem_expr efuel g e) as [[v g1]|fl0| |]; cbn [sbind]; try exact I; try contradiction.
+    pose proof (case_go_grows _ D e ea el v whens t g1 Hw) as Hc.
+    destruct (case_go v g1 whens) as [[hit g2]|fl0| |]; cbn [sbind]; try exact I; try contradiction.
+    destruct Hc as [Hg2 Hh]. apply (grows_trans g g1 _ Hg). apply (grows_trans g1 g2 _ Hg2).
+    exact (case_run_grows f m blk whens D fl el hit g2 IH Hd Hh).
   Qed.
 
   Lemma grows_all fs : G_nodes fs /\ G_node fs.
   Proof.
     induction fs as [|fs [IHns IHn]]; [split; intro; intros; exact I|]. split.
-    - intros ns m blk g fl t Hl. destruct ns as [|n r]; [apply grows_refl|].
+    - intros ns m blk g D fl t Hl. destruct ns as [|n r]; [apply grows_refl|].
       rewrite sem_nodes_cons. destruct (lower_list_cons _ _ _ _ Hl) as [ta [tb [Ha [Hb _]]]].
-      apply grows_bind; [exact (IHn n m blk g fl ta Ha)|].
-      intros g1 m1 _. exact (IHns r m1 blk g1 fl tb Hb).
-    - intros n m blk g fl t Hl. destruct fl as [|fl]; [discriminate|].
+      apply grows_bind; [exact (IHn n m blk g D fl ta Ha)|].
+      intros g1 m1 _. exact (IHns r m1 blk g1 D fl tb Hb).
+    - intros n m blk g D fl t Hl. destruct fl as [|fl]; [discriminate|].
       destruct n as [name inl attrs ablocks body|txt|stmts esc inl|test cons_ alt|e whens|v k obj body|test body
-                     |name params body|name args attrs body| |v|l|]; try discriminate Hl.
+                     |name params body|name args attrs body| |dv|l|]; try discriminate Hl.
       + (* tag *)
         unfold lw in Hl. cbn [lower] in Hl.
         destruct attrs; [|discriminate]. destruct ablocks; [|discriminate].
         destruct (has_delim name); [discriminate|].
-        destruct (lower_list (lower funcs goodb fl) body) as [b|] eqn:Eb; [|discriminate].
+        destruct (lower_list (lower funcs goodb D fl) body) as [b|] eqn:Eb; [|discriminate].
         rewrite sem_tag. cbv zeta. destruct (mem name void_tags); [exists []; reflexivity|].
         apply grows_bind.
         * apply (grows_trans g (put g (B "<" ++ name ++ [] ++ B ">"))); [exists []; reflexivity|].
-          exact (IHns body m blk _ fl b Eb).
+          exact (IHns body m blk _ D fl b Eb).
         * intros g3 m3 _. exists []. reflexivity.
       + (* text *) rewrite sem_text. exists []. reflexivity.
       + (* code *)
-        apply (code_grows fs m blk g stmts esc inl t). exact (lower_code_inv fl stmts esc inl t Hl).
+        apply (code_grows fs m blk g D stmts esc inl t). unfold lw in Hl. cbn [lower] in Hl.
+        exact (lower_code_inv D stmts esc t Hl).
       + (* if *)
-        unfold lw in Hl. cbn [lower] in Hl. fold lx in Hl.
-        destruct (lx test) as [ta|] eqn:Lt; [|discriminate].
-        destruct (lower_list (lower funcs goodb fl) cons_) as [th|] eqn:Ec; [|discriminate].
-        rewrite sem_cond. pose proof (expr_grows g test ta Lt) as Hg.
+        unfold lw in Hl. cbn [lower] in Hl. fold lxd in Hl.
+        destruct (lxd D test) as [ta|] eqn:Lt; [|discriminate].
+        destruct (lower_list (lower funcs goodb D fl) cons_) as [th|] eqn:Ec; [|discriminate].
+        rewrite sem_cond. pose proof (exprd_grows D g test ta Lt) as Hg.
         destruct (sem_expr efuel g test) as [[v g1]|fl0| |]; cbn [sbind]; try exact I; try contradiction.
         destruct (to_boolean g1 v) as [b g2] eqn:Eb. pose proof (to_boolean_flags g1 v b g2 Eb) as Hg2.
         apply (grows_trans g g1 _ Hg). apply (grows_trans g1 g2 _ Hg2).
-        destruct b; [exact (IHns cons_ m blk g2 fl th Ec)|].
+        destruct b; [exact (IHns cons_ m blk g2 D fl th Ec)|].
         destruct alt as [a'|]; [|apply grows_refl].
-        destruct (lower funcs goodb fl a') as [el|] eqn:Ea; [|discriminate].
-        exact (IHn a' m blk g2 fl el Ea).
+        destruct (lower funcs goodb D fl a') as [el|] eqn:Ea; [|discriminate].
+        exact (IHn a' m blk g2 D fl el Ea).
+      + (* case *) exact (case_grows fs m blk g D fl e whens t IHns Hl).
+      + (* each *)
+        destruct (lower_each_inv D fl v k obj body t Hl) as [c [tb [-> [_ [_ [_ [Hb _]]]]]]].
+        exact (each_grows fs blk v k c body _ fl tb m g IHns Hb).
       + (* while *)
-        unfold lw in Hl. cbn [lower] in Hl. fold lx in Hl.
-        destruct (lx test) as [ta|] eqn:Lt; [|discriminate].
-        destruct (lower_list (lower funcs goodb fl) body) as [tb|] eqn:Ebd; [|discriminate].
-        rewrite sem_while_eq. exact (while_grows fs blk test body ta fl tb IHns Lt Ebd fs while_limit g m).
-      + rewrite sem_block. unfold lw in Hl. cbn [lower] in Hl. exact (IHns l m blk g fl t Hl).
+        unfold lw in Hl. cbn [lower] in Hl. fold lxd in Hl.
+        destruct (lxd D test) as [ta|] eqn:Lt; [|discriminate].
+        destruct (lower_list (lower funcs goodb D fl) body) as [tb|] eqn:Ebd; [|discriminate].
+        rewrite sem_while_eq.
+        exact (while_grows fs blk test body ta D fl tb IHns (proj2 (lxd_inv D test ta Lt)) Ebd fs while_limit g m).
+      + (* doctype *) rewrite sem_doctype. exists []. reflexivity.
+      + rewrite sem_block. unfold lw in Hl. cbn [lower] in Hl. exact (IHns l m blk g D fl t Hl).
       + rewrite sem_comment. apply grows_refl.
   Qed.
 
   (* ---- the simulation -------------------------------------------------------------------------------------- *)
   (* [M f]: an execution of the model with fuel f; [r]: what S says *)
-  Definition sim_res (M : nat -> res xstate) (g : sstate) (m : list (bytes * mixin))
+  Definition sim_res (D : list bytes) (M : nat -> res xstate) (g : sstate) (m : list (bytes * mixin))
              (r : sres (sstate * list (bytes * mixin))) : Prop :=
     match r with
-    | SOk (g', m') => s_flags g' = s_flags g -> m' = m /\ exists f s', M f = Ok s' /\ R s' g'
+    | SOk (g', m') => s_flags g' = s_flags g -> m' = m /\ exists f s', M f = Ok s' /\ R D s' g'
     | SErr fl => fl = s_flags g -> exists f, M f = Panic
     | _ => True
     end.
-  Definition sim_ok (dot : val) (s : xstate) (t : list tnode) := sim_res (fun f => exec_nodes [] f dot s t).
+  Definition sim_ok (D : list bytes) (dot : val) (s : xstate) (t : list tnode) :=
+    sim_res D (fun f => exec_nodes [] f dot s t).
 
-  Lemma sim_seq dot s t1 t2 g m r1 k :
-    grows g r1 -> sim_ok dot s t1 g m r1 ->
-    (forall g1 m1, r1 = SOk (g1, m1) -> grows g1 (k (g1, m1))) ->
-    (forall g1 s1, R s1 g1 -> sim_ok dot s1 t2 g1 m (k (g1, m))) ->
-    sim_ok dot s (t1 ++ t2) g m (sbind r1 k).
+  (* S moves on (an expression, a flag) before the part that is simulated *)
+  Lemma sim_pre D M g g1 m r :
+    (exists l, s_flags g1 = l ++ s_flags g) -> grows g1 r ->
+    (s_flags g1 = s_flags g -> sim_res D M g1 m r) -> sim_res D M g m r.
   Proof.
-    intros G1 S1 G2 S2. destruct r1 as [[g1 m1]|fl| |]; cbn [sbind]; try exact I.
+    intros [l1 E1] G H. destruct r as [[g' m']|fl| |]; try exact I.
+    - intros Hf. destruct G as [l2 E2]. rewrite E2, E1 in Hf. destruct (flags_split _ _ _ Hf) as [-> ->].
+      cbn [app] in E1, E2. exact (H E1 E2).
+    - intros Hf. destruct G as [l2 E2]. rewrite E2, E1 in Hf. destruct (flags_split _ _ _ Hf) as [-> ->].
+      cbn [app] in E1, E2. exact (H E1 E2).
+  Qed.
+  (* a raised flag: nothing to show *)
+  Lemma sim_flagged D M g k m r : grows (flag g k) r -> sim_res D M g m r.
+  Proof.
+    intros G. apply (sim_pre D M g (flag g k) m r); [exists [k]; reflexivity|exact G|].
+    intros Hf. exfalso. exact (cons_not_self _ _ Hf).
+  Qed.
+
+  (* two parts in sequence: [M] runs [M1] and then [M2] from the state that left *)
+  Lemma sim_bind D1 D2 (M1 : nat -> res xstate) (M2 : xstate -> nat -> res xstate) (M : nat -> res xstate) g m r1 k :
+    grows g r1 -> sim_res D1 M1 g m r1 ->
+    (forall g1 m1, r1 = SOk (g1, m1) -> grows g1 (k (g1, m1))) ->
+    (forall g1 s1, R D1 s1 g1 -> sim_res D2 (M2 s1) g1 m (k (g1, m))) ->
+    (forall f1 s1 f2 r, M1 f1 = Ok s1 -> M2 s1 f2 = r -> fin r -> exists f, M f = r) ->
+    (forall f1, M1 f1 = Panic -> exists f, M f = Panic) ->
+    sim_res D2 M g m (sbind r1 k).
+  Proof.
+    intros G1 S1 G2 S2 Cok Cpanic. destruct r1 as [[g1 m1]|fl| |]; cbn [sbind]; try exact I.
     - specialize (G2 g1 m1 eq_refl). destruct G1 as [l1 E1].
       destruct (k (g1, m1)) as [[g' m']|fl| |] eqn:Ek; try exact I.
       + intros Hf. destruct G2 as [l2 E2]. rewrite E2, E1 in Hf. destruct (flags_split _ _ _ Hf) as [-> ->].
         cbn [app] in E1, E2. destruct (S1 E1) as [-> [f1 [s1 [X1 R1]]]].
-        specialize (S2 g1 s1 R1). unfold sim_ok, sim_res in S2. rewrite Ek in S2.
+        specialize (S2 g1 s1 R1). unfold sim_res in S2. rewrite Ek in S2.
         destruct (S2 E2) as [-> [f2 [s' [X2 R2]]]]. split; [reflexivity|].
-        exists (f1 + f2), s'. split; [|exact R2].
-        apply (exec_app_ok [] dot t1 f1 s s1 f2 t2 (Ok s') X1 X2). apply fin_ok.
+        destruct (Cok f1 s1 f2 (Ok s') X1 X2 (fin_ok _)) as [f X]. exists f, s'. split; [exact X|exact R2].
       + intros Hf. destruct G2 as [l2 E2]. rewrite E2, E1 in Hf. destruct (flags_split _ _ _ Hf) as [-> ->].
         cbn [app] in E1, E2. destruct (S1 E1) as [-> [f1 [s1 [X1 R1]]]].
-        specialize (S2 g1 s1 R1). unfold sim_ok, sim_res in S2. rewrite Ek in S2.
-        destruct (S2 E2) as [f2 X2].
-        exists (f1 + f2). apply (exec_app_ok [] dot t1 f1 s s1 f2 t2 Panic X1 X2). apply fin_panic.
-    - intros Hf. destruct (S1 Hf) as [f1 X1]. exists (f1 + 0). apply exec_app_panic. exact X1.
+        specialize (S2 g1 s1 R1). unfold sim_res in S2. rewrite Ek in S2.
+        destruct (S2 E2) as [f2 X2]. exact (Cok f1 s1 f2 Panic X1 X2 fin_panic).
+    - intros Hf. destruct (S1 Hf) as [f1 X1]. exact (Cpanic f1 X1).
   Qed.
 
-  Lemma sim_single dot s n g m r :
-    sim_res (fun f => exec_node [] f dot s n) g m r -> sim_ok dot s [n] g m r.
+  Lemma sim_seq D dot s t1 t2 g m r1 k :
+    grows g r1 -> sim_ok D dot s t1 g m r1 ->
+    (forall g1 m1, r1 = SOk (g1, m1) -> grows g1 (k (g1, m1))) ->
+    (forall g1 s1, R D s1 g1 -> sim_ok D dot s1 t2 g1 m (k (g1, m))) ->
+    sim_ok D dot s (t1 ++ t2) g m (sbind r1 k).
+  Proof.
+    intros G1 S1 G2 S2. unfold sim_ok.
+    apply (sim_bind D D (fun f => exec_nodes [] f dot s t1) (fun s1 f => exec_nodes [] f dot s1 t2)); try assumption.
+    - intros f1 s1 f2 r X1 X2 Hf. exists (f1 + f2). exact (exec_app_ok [] dot t1 f1 s s1 f2 t2 r X1 X2 Hf).
+    - intros f1 X1. exists (f1 + 0). apply exec_app_panic. exact X1.
+  Qed.
+
+  Lemma sim_single D dot s n g m r :
+    sim_res D (fun f => exec_node [] f dot s n) g m r -> sim_ok D dot s [n] g m r.
   Proof.
     unfold sim_ok, sim_res. destruct r as [[g' m']|fl| |]; try exact (fun _ => I).
     - intros H Hf. destruct (H Hf) as [-> [f [s' [X Rr]]]]. split; [reflexivity|].
@@ -501,58 +893,109 @@ Section Sim.
     - intros H Hf. destruct (H Hf) as [f X]. exists (S (S f)). apply exec_single; [exact X|apply fin_panic].
   Qed.
 
-  Lemma eval_here dot s g e a j g1 :
-    R s g -> lx e = Some a -> sem_expr efuel g e = SOk (j, g1) -> s_flags g1 = s_flags g ->
-    exists v, (forall d, eval_pipeline (env_of s dot) (x_heap s) (d, [[a]]) = Ok (v, x_heap s)) /\ vr v j /\ okj j /\ R s g1.
+  (* the result of S re-packaged without touching flags or mixins *)
+  Lemma sim_map D M g m r (F : sstate -> sstate) :
+    (forall g', s_flags (F g') = s_flags g') -> (forall s' g', R D s' g' -> R D s' (F g')) ->
+    sim_res D M g m r -> sim_res D M g m (sdo x <- r; let '(s2, m2) := x in SOk (F s2, m2)).
   Proof.
-    intros Rr La Es Ef.
-    destruct (H_eval e (good_lx e a La) (env_of s dot) (x_heap s) g j g1 (R_env s g Rr) (R_rng s g Rr) Es Ef)
-      as [a' [v [La' [Ev [Hv [Hj [E1 E2]]]]]]].
-    rewrite La in La'. injection La' as <-.
-    exists v. split; [exact Ev|split; [exact Hv|split; [exact Hj|exact (R_env_out s g g1 Rr E1 E2)]]].
+    intros Hfl HR H. destruct r as [[g' m']|fl| |]; cbn [sbind]; try exact I; [|exact H].
+    cbn [sim_res] in *. rewrite Hfl. intros Hf. destruct (H Hf) as [-> [f [s' [X Rr]]]].
+    split; [reflexivity|]. exists f, s'. split; [exact X|exact (HR s' g' Rr)].
   Qed.
 
-  Lemma R_set_heap_same s g : R s g -> R (set_heap s (x_heap s)) g.
-  Proof. rewrite set_heap_same. exact (fun H => H). Qed.
+  Lemma eval_here D dot s g e a j g1 :
+    R D s g -> lxd D e = Some a -> sem_expr efuel g e = SOk (j, g1) -> s_flags g1 = s_flags g ->
+    g1 = g /\
+    exists v, (forall d, eval_pipeline (env_of s dot) (x_heap s) (d, [[a]]) = Ok (v, x_heap s)) /\ vr v j /\ okj j.
+  Proof.
+    intros Rr La Es Ef. destruct (lxd_inv D e a La) as [Al Lx]. pose proof (good_lx e a Lx) as Hg.
+    split; [exact (H_same e Hg g j g1 Es Ef)|].
+    destruct (H_eval e Hg (env_of s dot) (x_heap s) g j g1 (R_on_vars D s g e Rr Hg Al) Es Ef)
+      as [a' [v [La' [Ev [Hv Hj]]]]].
+    rewrite Lx in La'. injection La' as <-.
+    exists v. split; [exact Ev|split; [exact Hv|exact Hj]].
+  Qed.
 
-  Lemma code_sim f0 m blk g stmts esc inl t dot s :
-    code_shape stmts esc t -> R s g ->
-    sim_ok dot s t g m (sem_node globals (S f0) m blk g (PCode stmts esc inl)).
+  Lemma text_sim D dot s g m t : R D s g -> sim_ok D dot s [NText t] g m (SOk (put g t, m)).
+  Proof.
+    intros Rr. cbn [sim_ok sim_res put s_flags]. intros _. split; [reflexivity|].
+    exists 2. eexists. split; [reflexivity|]. exact (R_emit_put D s g t Rr).
+  Qed.
+
+  Lemma to_string_js h s : to_string (S (S (length h))) h (JS s) = Some s.
+  Proof. reflexivity. Qed.
+  Lemma to_string_jn h z : to_string (S (S (length h))) h (JN z) = Some (show_Z z).
+  Proof. reflexivity. Qed.
+  Lemma to_string_jb h b : to_string (S (S (length h))) h (JB b) = Some (if b then B "true" else B "false").
+  Proof. reflexivity. Qed.
+
+  Lemma code_sim f0 m blk g D stmts esc inl t dot s :
+    code_shape D stmts esc t -> R D s g ->
+    sim_ok D dot s t g m (sem_node globals (S f0) m blk g (PCode stmts esc inl)).
   Proof.
     intros Hs Rr. destruct f0 as [|f]; [destruct Hs; subst; exact I|]. revert Hs.
-    intros [x r a -> -> La ->|x post -> -> Gx ->|x i a -> -> La ->|e a -> Hp -> La ->]; apply sim_single.
+    intros [x r a -> -> La ->|x post -> -> Gx Dx ->|x i a -> -> La ->|e a -> Hp -> La ->|sx -> He ->|z -> ->|b -> ->| -> ->].
     - (* x = r *)
-      rewrite sem_code_assign. pose proof (expr_grows g r a La) as Hg.
+      apply sim_single. rewrite sem_code_assign. pose proof (exprd_grows D g r a La) as Hg.
       destruct (sem_expr efuel g r) as [[j g1]|fl0| |] eqn:Es; cbn [sbind sim_res]; try exact I; try contradiction.
       cbn [with_env s_flags]. intros Hf.
-      destruct (eval_here dot s g r a j g1 Rr La Es Hf) as [v [Ev [Hv [Hj R1]]]].
+      destruct (eval_here D dot s g r a j g1 Rr La Es Hf) as [-> [v [Ev [Hv Hj]]]].
       split; [reflexivity|]. exists 1. eexists. split; [exact (decl_action [] 0 dot s x a v (Ev [x]))|].
-      exact (R_assign s g1 x v j (x_heap s) R1 Hv Hj).
+      exact (R_assign D s g x v j Rr Hv Hj).
     - (* x++ *)
+      apply sim_single.
       rewrite sem_code_inc. destruct (env_get (s_env g) x) as [| | |z| | |] eqn:Ex; cbn [sbind sim_res]; try exact I.
       unfold num. destruct (in_range (z + 1)) eqn:Hz; cbn [sbind sim_res]; [|exact I].
       cbn [with_env s_flags]. intros _. split; [reflexivity|].
-      pose proof (R_env s g Rr x (H_id x Gx)) as Hx. rewrite Ex in Hx.
+      pose proof (R_env D s g Rr x Dx (H_fv (JId x) Gx x (or_introl eq_refl))) as Hx. rewrite Ex in Hx.
       exists 1. eexists. split.
       + cbn [exec_node]. rewrite (inc_eval (env_of s dot) (x_heap s) x z _ eq_refl (vr_num _ z Hx) Hz). reflexivity.
-      + exact (R_assign s g x (VNum (z + 1)) (JN (z + 1)) (x_heap s) Rr (vr_num_intro _) (okj_num _ Hz)).
+      + exact (R_assign D s g x (VNum (z + 1)) (JN (z + 1)) Rr (vr_num_intro _) (okj_num _ Hz)).
     - (* var x = i *)
-      rewrite sem_code_var. pose proof (expr_grows g i a La) as Hg.
+      apply sim_single. rewrite sem_code_var. pose proof (exprd_grows D g i a La) as Hg.
       destruct (sem_expr efuel g i) as [[j g1]|fl0| |] eqn:Es; cbn [sbind sim_res]; try exact I; try contradiction.
       cbn [with_env s_flags]. intros Hf.
-      destruct (eval_here dot s g i a j g1 Rr La Es Hf) as [v [Ev [Hv [Hj R1]]]].
+      destruct (eval_here D dot s g i a j g1 Rr La Es Hf) as [-> [v [Ev [Hv Hj]]]].
       split; [reflexivity|]. exists 1. eexists. split; [exact (decl_action [] 0 dot s x a v (Ev [x]))|].
-      exact (R_assign s g1 x v j (x_heap s) R1 Hv Hj).
-    - (* = e / != e *)
-      rewrite (sem_code_print f m blk g e true inl Hp). pose proof (expr_grows g e a La) as Hg.
+      exact (R_assign D s g x v j Rr Hv Hj).
+    - (* = e *)
+      apply sim_single. rewrite (sem_code_print f m blk g e true inl Hp).
+      pose proof (exprd_grows D g e a La) as Hg.
       destruct (sem_expr efuel g e) as [[j g1]|fl0| |] eqn:Es; cbn [sbind sim_res]; try exact I; try contradiction.
       destruct (print_string g1 j) as [[tx g2]|fl1| |] eqn:Ep; cbn [sbind sim_res]; try exact I.
       + cbn [put s_flags]. intros Hf.
-        destruct (H_print e (good_lx e a La) Hp [] 0 dot s g g1 j tx g2 Rr Es Ep Hf) as [a' [La' [X [E1 E2]]]].
-        rewrite La in La'. injection La' as <-.
+        destruct Hg as [l1 E1]. destruct (print_string_flags g1 j tx g2 Ep) as [l2 E2].
+        rewrite E2, E1 in Hf. destruct (flags_split _ _ _ Hf) as [-> ->]. cbn [app] in E1, E2.
+        destruct (lxd_inv D e a La) as [Al Lx]. pose proof (good_lx e a Lx) as Ge.
+        pose proof (H_same e Ge g j g1 Es E1) as ->. pose proof (print_string_same g j tx g2 Ep E2) as ->.
+        destruct (H_print e Ge Hp [] 0 dot s g j tx (R_on_vars D s g e Rr Ge Al) Es Ep) as [a' [La' X]].
+        rewrite Lx in La'. injection La' as <-.
         split; [reflexivity|]. exists 1. eexists. split; [exact X|].
-        apply R_emit_put. exact (R_env_out s g g2 Rr E1 E2).
+        apply R_emit_put. exact Rr.
       + exfalso. exact (print_string_noerr g1 j fl1 Ep).
+    - (* = "literal" *)
+      rewrite sem_code_str. unfold sem_buffered. rewrite sem_str_eq. cbn [sbind print_string]. unfold tostr.
+      rewrite to_string_js. cbn [is_ref sbind].
+      replace (if esc then escape sx else sx) with (escape sx) by (destruct He as [-> | ->]; [reflexivity|destruct esc; reflexivity]).
+      exact (text_sim D dot s g m (escape sx) Rr).
+    - (* = 12 *)
+      rewrite sem_code_num. unfold sem_buffered. rewrite sem_num_eq. unfold num.
+      destruct (in_range z); cbn [sbind]; [|exact I]. cbn [print_string]. unfold tostr.
+      rewrite to_string_jn. cbn [is_ref sbind].
+      replace (if esc then escape (show_Z z) else show_Z z) with (show_Z z)
+        by (destruct esc; [symmetry; apply PV.Proofs.C01EvalProofs.show_Z_escape|reflexivity]).
+      exact (text_sim D dot s g m (show_Z z) Rr).
+    - (* = true *)
+      rewrite sem_code_bool. unfold sem_buffered. rewrite sem_bool_eq. cbn [sbind print_string]. unfold tostr.
+      rewrite to_string_jb. cbn [is_ref sbind].
+      replace (if esc then escape (if b then B "true" else B "false") else (if b then B "true" else B "false"))
+        with (if b then B "true" else B "false") by (destruct esc, b; reflexivity).
+      exact (text_sim D dot s g m _ Rr).
+    - (* = null *)
+      rewrite sem_code_null. unfold sem_buffered. rewrite sem_null_eq. cbn [sbind print_string].
+      replace (if esc then escape [] else []) with (@nil ascii) by (destruct esc; reflexivity).
+      apply sim_single. cbn [sim_res put s_flags]. intros _. split; [reflexivity|].
+      exists 1. eexists. split; [exact (null_action [] 0 dot s)|]. exact (R_emit_put D s g [] Rr).
   Qed.
 
   (* ---- while -------------------------------------------------------------------------------------------------- *)
@@ -582,19 +1025,17 @@ Section Sim.
     let s0 := set_vars s (f_vars (cur s) ++ map (fun x : bytes => (x, VInvalid)) []) in
     set_vars (set_heap s0 (x_heap s0)) (set_decl (f_vars (cur (set_heap s0 (x_heap s0)))) [] v).
 
-  Lemma R_plan_state s g v : R s g -> R (plan_state s v) g.
+  Lemma R_plan_state D s g v : R D s g -> R D (plan_state s v) g.
   Proof.
-    intros [Hl He Hk Ho]. unfold plan_state. cbn [map set_decl fold_left]. split.
-    - apply set_vars_live.
-    - rewrite cur_set_vars. unfold set_heap at 1. unfold cur at 1. cbn [x_frames]. fold (cur (set_vars s (f_vars (cur s) ++ []))).
-      rewrite cur_set_vars, app_nil_r. exact He.
-    - exact Hk.
-    - exact Ho.
+    intros Rr. unfold plan_state. cbn [map set_decl fold_left].
+    apply (R_update D s g); [exact Rr|apply set_vars_live|reflexivity|reflexivity|reflexivity|exact (R_out D s g Rr)|].
+    intros x _. left. rewrite cur_set_vars, cur_set_heap, cur_set_vars, app_nil_r. split; reflexivity.
   Qed.
 
-  Lemma range_plan_test dot s g test ta j g1 :
-    R s g -> lx test = Some ta -> sem_expr efuel g test = SOk (j, g1) -> s_flags g1 = s_flags g ->
-    exists v, vr v j /\ R (plan_state s v) g1 /\
+  Lemma range_plan_test D dot s g test ta j g1 :
+    R D s g -> lxd D test = Some ta -> sem_expr efuel g test = SOk (j, g1) -> s_flags g1 = s_flags g ->
+    g1 = g /\
+    exists v, vr v j /\ R D (plan_state s v) g /\
       range_plan dot s (pipe1 ta) =
       match v with
       | VArr _ | VMap _ | VNil | VInvalid | VAttrs _ | VMod _ => range_plan dot s (pipe1 ta)
@@ -604,116 +1045,80 @@ Section Sim.
   Proof.
     intros Rr La Es Ef.
     set (s0 := set_vars s (f_vars (cur s) ++ map (fun x : bytes => (x, VInvalid)) [])).
-    assert (R0 : R s0 g).
-    { destruct Rr as [Hl He Hk Ho]. split; [apply set_vars_live| |exact Hk|exact Ho].
-      unfold s0. rewrite cur_set_vars. cbn [map]. rewrite app_nil_r. exact He. }
-    destruct (eval_here dot s0 g test ta j g1 R0 La Es Ef) as [v [Ev [Hv [Hj R1]]]].
-    exists v. split; [exact Hv|]. split.
-    - apply (R_env_out (plan_state s v) g g1); [apply R_plan_state; exact Rr| |].
-      + destruct R1 as [_ _ _ _]. 
-        (* the expression left S's environment and output alone *)
-        destruct (H_eval test (good_lx test ta La) (env_of s0 dot) (x_heap s0) g j g1 (R_env s0 g R0) (R_rng s0 g R0) Es Ef)
-          as [_ [_ [_ [_ [_ [_ [E1 _]]]]]]]. exact E1.
-      + destruct (H_eval test (good_lx test ta La) (env_of s0 dot) (x_heap s0) g j g1 (R_env s0 g R0) (R_rng s0 g R0) Es Ef)
-          as [_ [_ [_ [_ [_ [_ [_ E2]]]]]]]. exact E2.
-    - unfold range_plan, pipe1. fold s0. rewrite (Ev []). cbn [bind].
-      destruct v; reflexivity.
+    assert (R0 : R D s0 g).
+    { apply (R_update D s g); [exact Rr|apply set_vars_live|reflexivity|reflexivity|reflexivity|exact (R_out D s g Rr)|].
+      intros x _. left. unfold s0. rewrite cur_set_vars. cbn [map]. rewrite app_nil_r. split; reflexivity. }
+    destruct (eval_here D dot s0 g test ta j g1 R0 La Es Ef) as [-> [v [Ev [Hv Hj]]]].
+    split; [reflexivity|]. exists v. split; [exact Hv|]. split; [apply R_plan_state; exact Rr|].
+    unfold range_plan, pipe1. fold s0. rewrite (Ev []). cbn [bind].
+    destruct v; reflexivity.
   Qed.
 
-  Definition P_nodes (fs : nat) : Prop := forall ns m blk g fl t dot s,
-    lower_list (lw fl) ns = Some t -> R s g -> sim_ok dot s t g m (sem_nodes globals fs m blk g ns).
-  Definition P_node (fs : nat) : Prop := forall n m blk g fl t dot s,
-    lw fl n = Some t -> R s g -> sim_ok dot s t g m (sem_node globals fs m blk g n).
+  Definition P_nodes (fs : nat) : Prop := forall ns m blk g D fl t dot s,
+    lower_list (lw D fl) ns = Some t -> R D s g -> sim_ok D dot s t g m (sem_nodes globals fs m blk g ns).
+  Definition P_node (fs : nat) : Prop := forall n m blk g D fl t dot s,
+    lw D fl n = Some t -> R D s g -> sim_ok D dot s t g m (sem_node globals fs m blk g n).
 
   Definition is_true (v : val) : Prop := v = VBool true \/ v = VGoBool true.
 
   (* one more test in the executor's while loop, with the test's value related to S's *)
-  Lemma while_test_eval dot s2 g2 test ta j g3 :
-    R s2 g2 -> lx test = Some ta -> sem_expr efuel g2 test = SOk (j, g3) -> s_flags g3 = s_flags g2 ->
-    exists v', eval_pipeline (env_of s2 dot) (x_heap s2) (pipe1 ta) = Ok (v', x_heap s2) /\ vr v' j /\ R s2 g3.
+  Lemma while_test_eval D dot s2 g2 test ta j g3 :
+    R D s2 g2 -> lxd D test = Some ta -> sem_expr efuel g2 test = SOk (j, g3) -> s_flags g3 = s_flags g2 ->
+    exists v', eval_pipeline (env_of s2 dot) (x_heap s2) (pipe1 ta) = Ok (v', x_heap s2) /\ vr v' j /\ R D s2 g3.
   Proof.
-    intros R2 La Es Ef. destruct (eval_here dot s2 g2 test ta j g3 R2 La Es Ef) as [v' [Ev [Hv [_ R3]]]].
+    intros R2 La Es Ef. destruct (eval_here D dot s2 g2 test ta j g3 R2 La Es Ef) as [-> [v' [Ev [Hv _]]]].
     exists v'. split; [exact (Ev [])|split; assumption].
   Qed.
 
-  Lemma after_true_grows f blk test body ta tb fl :
-    G_nodes f -> lx test = Some ta -> lower_list (lw fl) body = Some tb ->
+  Lemma after_true_grows f blk test body ta tb D fl :
+    G_nodes f -> lxd D test = Some ta -> lower_list (lw D fl) body = Some tb ->
     forall b f2 g1 m, grows g1 (after_true f blk test body b f2 g1 m).
   Proof.
     intros IHG La Lb b f2 g1 m. unfold after_true. destruct b as [|b'].
-    - apply grows_bind; [exact (IHG body m blk g1 fl tb Lb)|]. intros g5 m5 _.
-      pose proof (expr_grows g5 test ta La) as G5.
+    - apply grows_bind; [exact (IHG body m blk g1 D fl tb Lb)|]. intros g5 m5 _.
+      pose proof (exprd_grows D g5 test ta La) as G5.
       destruct (sem_expr efuel g5 test) as [[j6 g6]|?| |]; cbn [sbind snd]; try exact I; try contradiction. exact G5.
-    - apply grows_bind; [exact (IHG body m blk g1 fl tb Lb)|]. intros g5 m5 _.
-      exact (while_grows f blk test body ta fl tb IHG La Lb f2 b' g5 m5).
+    - apply grows_bind; [exact (IHG body m blk g1 D fl tb Lb)|]. intros g5 m5 _.
+      exact (while_grows f blk test body ta D fl tb IHG (proj2 (lxd_inv D test ta La)) Lb f2 b' g5 m5).
   Qed.
 
-  Lemma while_sim f blk test body ta tb fl :
-    P_nodes f -> G_nodes f -> lx test = Some ta -> lower_list (lw fl) body = Some tb ->
-    forall f2 b g1 m s1 v dot, R s1 g1 -> is_true v ->
-      sim_res (fun fM => exec_while [] fM dot s1 (pipe1 ta) tb b v) g1 m (after_true f blk test body b f2 g1 m).
+  Lemma while_sim f blk test body ta tb D fl :
+    P_nodes f -> G_nodes f -> lxd D test = Some ta -> lower_list (lw D fl) body = Some tb ->
+    forall f2 b g1 m s1 v dot, R D s1 g1 -> is_true v ->
+      sim_res D (fun fM => exec_while [] fM dot s1 (pipe1 ta) tb b v) g1 m (after_true f blk test body b f2 g1 m).
   Proof.
     intros IHP IHG La Lb. induction f2 as [|f2 IH2]; intros b g1 m s1 v dot R1 Hv.
     - (* no S fuel left for another test *)
-      unfold after_true. pose proof (IHG body m blk g1 fl tb Lb) as Gb.
-      pose proof (IHP body m blk g1 fl tb v s1 Lb R1) as Sb. unfold sim_ok in Sb.
+      unfold after_true. pose proof (IHG body m blk g1 D fl tb Lb) as Gb.
+      pose proof (IHP body m blk g1 D fl tb v s1 Lb R1) as Sb. unfold sim_ok in Sb.
       destruct (sem_nodes globals f m blk g1 body) as [[g2 m2]|flb| |] eqn:Eb; destruct b as [|b']; cbn [sbind sim_res]; try exact I.
       + (* budget used up: body, test, error *)
-        pose proof (expr_grows g2 test ta La) as Gt.
+        pose proof (exprd_grows D g2 test ta La) as Gt.
         destruct (sem_expr efuel g2 test) as [[j g3]|fl0| |] eqn:Et; cbn [sbind sim_res snd]; try exact I; try contradiction.
         intros Hf. destruct Gb as [l1 E1]. destruct Gt as [l2 E2]. rewrite E2, E1 in Hf.
         destruct (flags_split _ _ _ Hf) as [-> ->]. cbn [app] in E1, E2.
         destruct (Sb E1) as [_ [fb [s2 [Xb R2]]]].
-        destruct (while_test_eval dot s2 g2 test ta j g3 R2 La Et E2) as [v' [Ev _]].
+        destruct (while_test_eval D dot s2 g2 test ta j g3 R2 La Et E2) as [v' [Ev _]].
         exists (S fb). rewrite while_step, Xb. cbn [bind]. rewrite Ev. reflexivity.
       + intros Hf. destruct (Sb Hf) as [fb Xb]. exists (S fb). rewrite while_step, Xb. reflexivity.
       + intros Hf. destruct (Sb Hf) as [fb Xb]. exists (S fb). rewrite while_step, Xb. reflexivity.
-    - unfold after_true. pose proof (IHG body m blk g1 fl tb Lb) as Gb.
-      pose proof (IHP body m blk g1 fl tb v s1 Lb R1) as Sb. unfold sim_ok in Sb.
+    - unfold after_true. pose proof (IHG body m blk g1 D fl tb Lb) as Gb.
+      pose proof (IHP body m blk g1 D fl tb v s1 Lb R1) as Sb. unfold sim_ok in Sb.
       destruct (sem_nodes globals f m blk g1 body) as [[g2 m2]|flb| |] eqn:Eb; destruct b as [|b']; cbn [sbind sim_res]; try exact I.
-      + pose proof (expr_grows g2 test ta La) as Gt.
+      + pose proof (exprd_grows D g2 test ta La) as Gt.
         destruct (sem_expr efuel g2 test) as [[j g3]|fl0| |] eqn:Et; cbn [sbind sim_res snd]; try exact I; try contradiction.
         intros Hf. destruct Gb as [l1 E1]. destruct Gt as [l2 E2]. rewrite E2, E1 in Hf.
         destruct (flags_split _ _ _ Hf) as [-> ->]. cbn [app] in E1, E2.
         destruct (Sb E1) as [_ [fb [s2 [Xb R2]]]].
-        destruct (while_test_eval dot s2 g2 test ta j g3 R2 La Et E2) as [v' [Ev _]].
+        destruct (while_test_eval D dot s2 g2 test ta j g3 R2 La Et E2) as [v' [Ev _]].
         exists (S fb). rewrite while_step, Xb. cbn [bind]. rewrite Ev. reflexivity.
       + (* another round *)
-        rewrite sem_while_step. pose proof (expr_grows g2 test ta La) as Gt.
+        rewrite sem_while_step. pose proof (exprd_grows D g2 test ta La) as Gt.
         destruct (sem_expr efuel g2 test) as [[j g3]|fl0| |] eqn:Et; cbn [sbind]; try exact I; try contradiction.
         destruct Gb as [l1 E1]. destruct Gt as [l2 E2].
         destruct j as [| |[|]| | | |]; try exact I.
         * (* test true again *)
-          pose proof (while_grows f blk test body ta fl tb IHG La Lb) as GW.
-          assert (GA : grows g3 (after_true f blk test body b' f2 g3 m2)).
-          { specialize (GW (S f2) b' g3 m2). rewrite sem_while_step in GW.
-            destruct (sem_expr efuel g3 test) as [[j4 g4]|?| |] eqn:E4; unfold after_true. 
-            - (* use monotonicity of the loop from g3 directly *)
-              unfold after_true in *. clear GW.
-              destruct b' as [|b''].
-              + apply grows_bind; [exact (IHG body m2 blk g3 fl tb Lb)|]. intros g5 m5 _.
-                pose proof (expr_grows g5 test ta La) as G5.
-                destruct (sem_expr efuel g5 test) as [[j6 g6]|?| |]; cbn [sbind snd]; try exact I; try contradiction. exact G5.
-              + apply grows_bind; [exact (IHG body m2 blk g3 fl tb Lb)|]. intros g5 m5 _.
-                exact (while_grows f blk test body ta fl tb IHG La Lb f2 b'' g5 m5).
-            - destruct b' as [|b''].
-              + apply grows_bind; [exact (IHG body m2 blk g3 fl tb Lb)|]. intros g5 m5 _.
-                pose proof (expr_grows g5 test ta La) as G5.
-                destruct (sem_expr efuel g5 test) as [[j6 g6]|?| |]; cbn [sbind snd]; try exact I; try contradiction. exact G5.
-              + apply grows_bind; [exact (IHG body m2 blk g3 fl tb Lb)|]. intros g5 m5 _.
-                exact (while_grows f blk test body ta fl tb IHG La Lb f2 b'' g5 m5).
-            - destruct b' as [|b''].
-              + apply grows_bind; [exact (IHG body m2 blk g3 fl tb Lb)|]. intros g5 m5 _.
-                pose proof (expr_grows g5 test ta La) as G5.
-                destruct (sem_expr efuel g5 test) as [[j6 g6]|?| |]; cbn [sbind snd]; try exact I; try contradiction. exact G5.
-              + apply grows_bind; [exact (IHG body m2 blk g3 fl tb Lb)|]. intros g5 m5 _.
-                exact (while_grows f blk test body ta fl tb IHG La Lb f2 b'' g5 m5).
-            - destruct b' as [|b''].
-              + apply grows_bind; [exact (IHG body m2 blk g3 fl tb Lb)|]. intros g5 m5 _.
-                pose proof (expr_grows g5 test ta La) as G5.
-                destruct (sem_expr efuel g5 test) as [[j6 g6]|?| |]; cbn [sbind snd]; try exact I; try contradiction. exact G5.
-              + apply grows_bind; [exact (IHG body m2 blk g3 fl tb Lb)|]. intros g5 m5 _.
-                exact (while_grows f blk test body ta fl tb IHG La Lb f2 b'' g5 m5). }
+          pose proof (after_true_grows f blk test body ta tb D fl IHG La Lb b' f2 g3 m2) as GA.
           destruct (after_true f blk test body b' f2 g3 m2) as [[g' m']|fle| |] eqn:EA; cbn [sim_res]; try exact I.
           -- intros Hf. destruct GA as [l3 E3]. rewrite E3, E2, E1 in Hf.
              assert (HH : l3 = [] /\ l2 = [] /\ l1 = []).
@@ -722,8 +1127,8 @@ Section Sim.
                apply app_eq_nil in Hf. destruct Hf as [-> ->]. repeat split. }
              destruct HH as [-> [-> ->]]. cbn [app] in E1, E2, E3.
              destruct (Sb E1) as [-> [fb [s2 [Xb R2]]]].
-             destruct (while_test_eval dot s2 g2 test ta (JB true) g3 R2 La Et E2) as [v' [Ev [Hv' R3]]].
-             pose proof (IH2 b' g3 m s2 v' dot R3) as SI. 
+             destruct (while_test_eval D dot s2 g2 test ta (JB true) g3 R2 La Et E2) as [v' [Ev [Hv' R3]]].
+             pose proof (IH2 b' g3 m s2 v' dot R3) as SI.
              assert (Tv : is_true v') by (destruct (vr_bool v' true Hv') as [->| ->]; [left|right]; reflexivity).
              specialize (SI Tv). rewrite EA in SI. cbn [sim_res] in SI. destruct (SI E3) as [-> [fw [s' [Xw R']]]].
              split; [reflexivity|]. exists (S (fb + fw)), s'. split; [|exact R'].
@@ -739,7 +1144,7 @@ Section Sim.
                apply app_eq_nil in Hf. destruct Hf as [-> ->]. repeat split. }
              destruct HH as [-> [-> ->]]. cbn [app] in E1, E2, E3.
              destruct (Sb E1) as [-> [fb [s2 [Xb R2]]]].
-             destruct (while_test_eval dot s2 g2 test ta (JB true) g3 R2 La Et E2) as [v' [Ev [Hv' R3]]].
+             destruct (while_test_eval D dot s2 g2 test ta (JB true) g3 R2 La Et E2) as [v' [Ev [Hv' R3]]].
              pose proof (IH2 b' g3 m s2 v' dot R3) as SI.
              assert (Tv : is_true v') by (destruct (vr_bool v' true Hv') as [->| ->]; [left|right]; reflexivity).
              specialize (SI Tv). rewrite EA in SI. cbn [sim_res] in SI. destruct (SI E3) as [fw Xw].
@@ -752,13 +1157,390 @@ Section Sim.
         * (* test false: the loop ends *)
           cbn [sim_res]. intros Hf. rewrite E2, E1 in Hf. destruct (flags_split _ _ _ Hf) as [-> ->]. cbn [app] in E1, E2.
           destruct (Sb E1) as [-> [fb [s2 [Xb R2]]]].
-          destruct (while_test_eval dot s2 g2 test ta (JB false) g3 R2 La Et E2) as [v' [Ev [Hv' R3]]].
+          destruct (while_test_eval D dot s2 g2 test ta (JB false) g3 R2 La Et E2) as [v' [Ev [Hv' R3]]].
           split; [reflexivity|]. exists (S fb), (set_heap s2 (x_heap s2)). split.
           -- rewrite while_step, Xb. cbn [bind]. rewrite Ev. cbn [bind].
              destruct (vr_bool v' false Hv') as [-> | ->]; reflexivity.
           -- rewrite set_heap_same. exact R3.
       + intros Hf. destruct (Sb Hf) as [fb Xb]. exists (S fb). rewrite while_step, Xb. reflexivity.
       + intros Hf. destruct (Sb Hf) as [fb Xb]. exists (S fb). rewrite while_step, Xb. reflexivity.
+  Qed.
+
+  (* ---- each --------------------------------------------------------------------------------------------------- *)
+  (* the general form of [R_update]: the dead set may change with the step *)
+  Lemma R_update2 D D' s g s' g' :
+    R D s g -> live s' -> x_heap s' = x_heap s -> s_heap g' = s_heap g -> s_grown g' = s_grown g ->
+    output s' = soutput g' ->
+    (forall x, mem x D' = false ->
+       (mem x D = false /\ var_val (f_vars (cur s')) x = var_val (f_vars (cur s)) x /\
+        env_get (s_env g') x = env_get (s_env g) x) \/
+       (vr (var_val (f_vars (cur s')) x) (env_get (s_env g') x) /\ okj (env_get (s_env g') x))) ->
+    R D' s' g'.
+  Proof.
+    intros [Hl He Hk Ha Ho Hgr] Hl' Hh Hj Hg' Ho' Hx. split; [| | | | |rewrite Hg'; exact Hgr].
+    - exact Hl'.
+    - intros x Hd Hn. destruct (Hx x Hd) as [[Hd0 [-> ->]]|[H _]]; [exact (He x Hd0 Hn)|exact H].
+    - intros x Hd Hn. destruct (Hx x Hd) as [[Hd0 [_ ->]]|[_ H]]; [exact (Hk x Hd0 Hn)|exact H].
+    - intros x Hd. rewrite Hh, Hj. destruct (Hx x Hd) as [[Hd0 [-> ->]]|[H _]]; [exact (Ha x Hd0)|left; exact H].
+    - exact Ho'.
+  Qed.
+
+  Lemma var_val_app_new vs x v y : x <> y -> var_val (vs ++ [(x, v)]) y = var_val vs y.
+  Proof.
+    intros Hn. unfold var_val. rewrite var_get_app_new.
+    destruct (beqb x y) eqn:E; [apply beqb_eq in E; contradiction|reflexivity].
+  Qed.
+  Lemma var_val_app_decl decl : forall vs c, ~ In c decl ->
+    var_val (vs ++ map (fun x : bytes => (x, VInvalid)) decl) c = var_val vs c.
+  Proof.
+    induction decl as [|x r IH]; intros vs c Hc; cbn [map]; [rewrite app_nil_r; reflexivity|].
+    change (vs ++ (x, VInvalid) :: map (fun x0 : bytes => (x0, VInvalid)) r)
+      with (vs ++ [(x, VInvalid)] ++ map (fun x0 : bytes => (x0, VInvalid)) r).
+    rewrite app_assoc. rewrite IH by (intros H; apply Hc; right; exact H).
+    apply var_val_app_new. intros ->. apply Hc. left; reflexivity.
+  Qed.
+  Lemma var_val_set_decl decl v : forall vs c, ~ In c decl -> var_val (set_decl vs decl v) c = var_val vs c.
+  Proof.
+    unfold set_decl. induction decl as [|x r IH]; intros vs c Hc; cbn [fold_left]; [reflexivity|].
+    rewrite IH by (intros H; apply Hc; right; exact H).
+    apply var_val_set_other. intros ->. apply Hc. left; reflexivity.
+  Qed.
+
+  (* the state in which walkRange starts iterating: the declared variables pushed, then set to the collection *)
+  Definition each_state (s : xstate) (decl : list bytes) (cv : val) : xstate :=
+    let s0 := set_vars s (f_vars (cur s) ++ map (fun x : bytes => (x, VInvalid)) decl) in
+    let s1 := set_heap s0 (x_heap s) in
+    set_vars s1 (set_decl (f_vars (cur s1)) decl cv).
+
+  Lemma R_each_state D s g decl cv :
+    (forall x, In x decl -> mem x D = true) -> R D s g -> R D (each_state s decl cv) g.
+  Proof.
+    intros Hd Rr. unfold each_state.
+    apply (R_update D s g); [exact Rr|apply set_vars_live|reflexivity|reflexivity|reflexivity|exact (R_out D s g Rr)|].
+    intros x Hx. left. assert (Hn : ~ In x decl) by (intros H; rewrite (Hd x H) in Hx; discriminate Hx).
+    rewrite cur_set_vars, cur_set_heap, cur_set_vars.
+    rewrite (var_val_set_decl decl cv _ x Hn), (var_val_app_decl decl _ x Hn). split; reflexivity.
+  Qed.
+
+  Lemma range_plan_each dot s decl c :
+    ~ In c decl ->
+    range_plan dot s (decl, [[AVar c []]]) =
+    (let v := var_val (f_vars (cur s)) c in
+     let s2 := each_state s decl v in
+     let h1 := x_heap s in
+     let iter_list (pairs : list (val * val)) : rplan :=
+       match pairs with [] => RElse s2 | _ => RIter s2 pairs end in
+     match v with
+     | VArr l =>
+       match hget h1 l with
+       | Some (OArr items) =>
+         Ok (iter_list (combine (map (fun i => VInt (Z.of_nat i)) (seq 0 (length items))) items))
+       | _ => Unmod
+       end
+     | VMap l =>
+       match hget h1 l with
+       | Some (OMap items order) =>
+         match order with
+         | [] => Ok (iter_list (map (fun k => (VGoStr k, member_lookup items k)) (sort_bytes (keys items))))
+         | _ =>
+           Ok (match map (fun k => (VGoStr k, member_lookup items k)) (filter (fun k => mem k (keys items)) order) with
+               | [] => RDone s2
+               | pairs => RIter s2 pairs
+               end)
+         end
+       | _ => Unmod
+       end
+     | VNil | VInvalid => Ok (RElse s2)
+     | VBool b | VGoBool b => Ok (if b then RWhile s2 v else RDone s2)
+     | VAttrs _ | VMod _ => Unmod
+     | _ => Panic
+     end).
+  Proof.
+    intros Hc. unfold range_plan. rewrite avar_eval. cbn [bind].
+    change (e_vars (env_of (set_vars s (f_vars (cur s) ++ map (fun x : bytes => (x, VInvalid)) decl)) dot))
+      with (f_vars (cur (set_vars s (f_vars (cur s) ++ map (fun x : bytes => (x, VInvalid)) decl)))).
+    rewrite cur_set_vars, (var_val_app_decl decl _ c Hc). reflexivity.
+  Qed.
+
+  (* the (key, element) pairs of the two sides *)
+  Definition prel (p : val * val) (q : jv * jv) : Prop :=
+    vr (fst p) (fst q) /\ okj (fst q) /\ vr (snd p) (snd q) /\ okj (snd q).
+
+  Lemma in_range_le a b : (0 <= a <= b)%Z -> in_range b = true -> in_range a = true.
+  Proof. unfold in_range. intros H Hb. apply Z.ltb_lt in Hb. apply Z.ltb_lt. lia. Qed.
+
+  Lemma indexed_rel_from items jitems :
+    Forall2 (fun a b => vr a b /\ okj b) items jitems ->
+    forall a, in_range (Z.of_nat (a + length jitems)) = true ->
+    Forall2 prel (combine (map (fun i => VInt (Z.of_nat i)) (seq a (length items))) items)
+                 (combine (map (fun i => JN (Z.of_nat i)) (seq a (length jitems))) jitems).
+  Proof.
+    induction 1 as [|x y items jitems [Hxy Hy] HF IH]; intros a Hr; [constructor|].
+    cbn [length seq map combine]. constructor.
+    - split; [apply vr_int_intro|]. split; [|split; assumption].
+      apply okj_num. apply (in_range_le _ _ (conj (Nat2Z.is_nonneg a) (inj_le _ _ (Nat.le_add_r a _))) Hr).
+    - apply IH. cbn [length] in Hr. rewrite Nat.add_succ_r in Hr. exact Hr.
+  Qed.
+  Lemma indexed_rel items jitems :
+    Forall2 (fun a b => vr a b /\ okj b) items jitems -> in_range (Z.of_nat (length jitems)) = true ->
+    Forall2 prel (indexed items) (jindexed jitems).
+  Proof. intros HF Hr. exact (indexed_rel_from items jitems HF 0 Hr). Qed.
+
+  Lemma map_pairs_rel items ks props :
+    Forall2 (fun k p => k = fst p /\ vr (member_lookup items k) (snd p) /\ okj (snd p)) ks props ->
+    Forall2 prel (map (fun k => (VGoStr k, member_lookup items k)) ks) (map (fun p : bytes * jv => (JS (fst p), snd p)) props).
+  Proof.
+    induction 1 as [|k0 p0 ks props [Hk [Hv Ho]] HF IH]; [constructor|]. cbn [map]. constructor; [|exact IH].
+    unfold prel. cbn [fst snd]. subst k0. split; [apply vr_gostr_intro|]. split; [apply okj_str|]. split; assumption.
+  Qed.
+
+  (* entering an iteration: the loop variables come alive, bound to related scalars *)
+  Lemma R_bind D D' s g v k kx vx kv vv :
+    R D s g ->
+    (forall x, mem x D' = false -> mem x D = false \/ x = v \/ Some x = k) ->
+    (forall k', k = Some k' -> k' <> v) ->
+    vr kx kv -> okj kv -> vr vx vv -> okj vv ->
+    R D' (set_vars s (bind_loop (f_vars (cur s)) (opt_list k ++ [v]) kx vx))
+         (with_env g (each_env v k (s_env g) kv vv)).
+  Proof.
+    intros Rr HD Hkv Hk Hko Hv Hvo.
+    apply (R_update2 D D' s g); [exact Rr|apply set_vars_live|reflexivity|reflexivity|reflexivity|exact (R_out D s g Rr)|].
+    intros x Hx. rewrite cur_set_vars. cbn [with_env s_env]. unfold each_env.
+    destruct k as [k'|]; cbn [opt_list app bind_loop].
+    - pose proof (Hkv k' eq_refl) as Hne.
+      destruct (list_eq_dec ascii_dec v x) as [->|Hnv].
+      + right. rewrite var_val_set_same. rewrite (env_get_set_other _ _ _ _ Hne), env_get_set_same. split; assumption.
+      + destruct (list_eq_dec ascii_dec k' x) as [->|Hnk].
+        * right. rewrite (var_val_set_other _ _ _ _ Hnv), var_val_set_same, env_get_set_same. split; assumption.
+        * left. destruct (HD x Hx) as [Hd|[->|E]]; [|contradiction|injection E as ->; contradiction].
+          split; [exact Hd|].
+          rewrite (var_val_set_other _ _ _ _ Hnv), (var_val_set_other _ _ _ _ Hnk),
+                  (env_get_set_other _ _ _ _ Hnk), (env_get_set_other _ _ _ _ Hnv). split; reflexivity.
+    - destruct (list_eq_dec ascii_dec v x) as [->|Hnv].
+      + right. rewrite var_val_set_same, env_get_set_same. split; assumption.
+      + left. destruct (HD x Hx) as [Hd|[->|E]]; [|contradiction|discriminate E].
+        split; [exact Hd|]. rewrite (var_val_set_other _ _ _ _ Hnv), (env_get_set_other _ _ _ _ Hnv). split; reflexivity.
+  Qed.
+
+  (* leaving the loop: pug drops the loop variables *)
+  Lemma env_get_drop env v x : x <> v -> env_get (filter (fun p : bytes * jv => negb (beqb (fst p) v)) env) x = env_get env x.
+  Proof.
+    intros Hn. unfold env_get. induction env as [|[k0 j0] r IH]; [reflexivity|].
+    cbn [filter fst]. destruct (beqb k0 v) eqn:E; cbn [negb lookup].
+    - apply beqb_eq in E. subst k0. destruct (beqb x v) eqn:E2; [apply beqb_eq in E2; contradiction|]. exact IH.
+    - destruct (beqb x k0); [reflexivity|exact IH].
+  Qed.
+
+  Lemma R_restore D s g v k :
+    mem v D = true -> (forall k', k = Some k' -> mem k' D = true) ->
+    R D s g -> R D s (each_restore v k None None g).
+  Proof.
+    intros Hv Hk Rr.
+    apply (R_update D s g); [exact Rr|exact (R_live D s g Rr)|reflexivity|reflexivity|reflexivity|exact (R_out D s g Rr)|].
+    intros x Hx. left. split; [reflexivity|].
+    assert (Hnv : x <> v) by (intros ->; rewrite Hv in Hx; discriminate Hx).
+    unfold each_restore. cbn [with_env s_env]. destruct k as [k'|].
+    - assert (Hnk : x <> k') by (intros ->; rewrite (Hk k' eq_refl) in Hx; discriminate Hx).
+      rewrite (env_get_drop _ k' x Hnk). exact (env_get_drop _ v x Hnv).
+    - exact (env_get_drop _ v x Hnv).
+  Qed.
+
+  Lemma sim_res_flags D M g1 g m r : s_flags g1 = s_flags g -> sim_res D M g1 m r -> sim_res D M g m r.
+  Proof. intros E. unfold sim_res. rewrite E. exact (fun H => H). Qed.
+  Lemma sim_res_run D (M1 M2 : nat -> res xstate) g m r :
+    (forall f r0, M1 f = r0 -> fin r0 -> exists f', M2 f' = r0) -> sim_res D M1 g m r -> sim_res D M2 g m r.
+  Proof.
+    intros HM. unfold sim_res. destruct r as [[g' m']|fl| |]; try exact (fun H => H).
+    - intros H Hf. destruct (H Hf) as [-> [f [s' [X Rr]]]]. split; [reflexivity|].
+      destruct (HM f (Ok s') X (fin_ok _)) as [f' X']. exists f', s'. split; assumption.
+    - intros H Hf. destruct (H Hf) as [f X]. exact (HM f Panic X fin_panic).
+  Qed.
+
+  Lemma iter_sim f blk v k body tb D D' fl :
+    P_nodes f -> G_nodes f -> lower_list (lw D' fl) body = Some tb ->
+    (forall x, mem x D' = false -> mem x D = false \/ x = v \/ Some x = k) ->
+    (forall x, mem x D = false -> mem x D' = false) ->
+    (forall k', k = Some k' -> k' <> v) ->
+    forall pairs jpairs, Forall2 prel pairs jpairs -> forall s g m, R D s g ->
+      sim_res D (fun fM => exec_iter [] fM s (opt_list k ++ [v]) tb pairs) g m (sem_iter f blk v k body O g m jpairs).
+  Proof.
+    intros IHP IHG Lb HD HD' Hkv. induction 1 as [|[kx vx] [kv vv] pairs jpairs Hp HF IH]; intros s g m Rr.
+    - cbn [sem_iter sim_res]. intros _. split; [reflexivity|]. exists 1, s. split; [reflexivity|exact Rr].
+    - cbn [sem_iter]. destruct Hp as [Hk [Hko [Hv Hvo]]]. cbn [fst snd] in Hk, Hko, Hv, Hvo.
+      set (decl := opt_list k ++ [v]).
+      set (s_in := set_vars s (bind_loop (f_vars (cur s)) decl kx vx)).
+      set (g_in := with_env g (each_env v k (s_env g) kv vv)).
+      assert (Rin : R D' s_in g_in) by exact (R_bind D D' s g v k kx vx kv vv Rr HD Hkv Hk Hko Hv Hvo).
+      apply (sim_bind D' D (fun fM => exec_nodes [] fM vx s_in tb) (fun s1 fM => exec_iter [] fM s1 decl tb pairs)).
+      + apply (grows_same g g_in); [reflexivity|]. exact (IHG body m blk g_in D' fl tb Lb).
+      + apply (sim_res_flags D' _ g_in g); [reflexivity|]. exact (IHP body m blk g_in D' fl tb vx s_in Lb Rin).
+      + intros g1 m1 _. exact (iter_grows f blk v k body D' fl tb IHG Lb jpairs g1 m1).
+      + intros g1 s1 R1. exact (IH s1 g1 m (R_weaken D' D s1 g1 HD' R1)).
+      + intros f1 s1 f2 r X1 X2 Hf. exists (S (f1 + f2)). rewrite iter_cons. cbv zeta.
+        change (set_vars s match decl with
+                           | [a; b] => var_set (var_set (f_vars (cur s)) a kx) b vx
+                           | [a0] => var_set (f_vars (cur s)) a0 vx
+                           | _ => f_vars (cur s)
+                           end) with s_in.
+        rewrite (exec_nodes_mono [] f1 (f1 + f2)); [|lia|rewrite X1; apply fin_ok]. rewrite X1. cbn [bind].
+        rewrite (exec_iter_mono [] f2 (f1 + f2)); [exact X2|lia|rewrite X2; exact Hf].
+      + intros f1 X1. exists (S f1). rewrite iter_cons. cbv zeta.
+        change (set_vars s match decl with
+                           | [a; b] => var_set (var_set (f_vars (cur s)) a kx) b vx
+                           | [a0] => var_set (f_vars (cur s)) a0 vx
+                           | _ => f_vars (cur s)
+                           end) with s_in.
+        rewrite X1. reflexivity.
+  Qed.
+
+  Lemma undead_spec xs D x : mem x (undead xs D) = false <-> mem x D = false \/ mem x xs = true.
+  Proof.
+    unfold undead. split.
+    - intros H. destruct (mem x D) eqn:Hd; [|left; reflexivity]. right.
+      destruct (mem x xs) eqn:Hx; [reflexivity|]. exfalso. apply mem_false_In in H. apply H.
+      apply filter_In. split; [apply mem_In; exact Hd|rewrite Hx; reflexivity].
+    - intros H. apply mem_false_In. intros Hin. apply filter_In in Hin. destruct Hin as [Hin Hx].
+      apply negb_true_iff in Hx. destruct H as [H|H]; [|congruence]. apply mem_In in Hin. congruence.
+  Qed.
+
+  Lemma each_sim f m blk g D fl v k c body tb dot s :
+    P_nodes f -> G_nodes f ->
+    mem c D = false -> mem v D = true -> (forall k', k = Some k' -> mem k' D = true /\ k' <> v) ->
+    lower_list (lw (undead (v :: opt_list k) D) fl) body = Some tb -> R D s g ->
+    sim_res D (fun fM => exec_node [] fM dot s (NRange (opt_list k ++ [v], [[AVar c []]]) tb [])) g m
+            (sem_node globals (S f) m blk g (PEach v k (JId c) body)).
+  Proof.
+    intros IHP IHG Hc Hv Hk Lb Rr. rewrite sem_each_eq, sem_id_eq. cbn [sbind]. cbv zeta.
+    set (D' := undead (v :: opt_list k) D) in *.
+    destruct (lookup v (s_env g)) as [j0|] eqn:Sv.
+    { apply (sim_flagged D _ g fl_loop_shadow). exact (each_tail_grows f blk v k body D' fl tb _ _ m _ _ IHG Lb). }
+    destruct (match k with Some k' => lookup k' (s_env g) | None => None end) as [j0|] eqn:Sk.
+    { apply (sim_flagged D _ g fl_loop_shadow). exact (each_tail_grows f blk v k body D' fl tb _ _ m _ _ IHG Lb). }
+    set (decl := opt_list k ++ [v]).
+    assert (Hdecl : forall x, In x decl -> mem x D = true).
+    { intros x Hx. apply in_app_or in Hx. destruct Hx as [Hx|[<-|[]]]; [|exact Hv].
+      destruct k as [k'|]; [|destruct Hx]. destruct Hx as [<-|[]]. exact (proj1 (Hk k' eq_refl)). }
+    assert (Hcd : ~ In c decl) by (intros H; rewrite (Hdecl c H) in Hc; discriminate Hc).
+    pose proof (R_all D s g Rr c Hc) as Hw.
+    pose proof (range_plan_each dot s decl c Hcd) as Hplan. cbv zeta in Hplan.
+    set (cv := var_val (f_vars (cur s)) c) in *. set (jc := env_get (s_env g) c) in *.
+    pose proof (R_each_state D s g decl cv Hdecl Rr) as R2.
+    destruct Hw as [Hvr|Hcoll].
+    - (* the variable holds a scalar: nothing is iterated (or S is outside its domain) *)
+      pose proof (vr_noref cv jc Hvr) as Hnr. unfold each_tail.
+      assert (Hnull : jc = JUndef \/ jc = JNul ->
+                      sim_res D (fun fM => exec_node [] fM dot s (NRange (decl, [[AVar c []]]) tb [])) g m (SOk (g, m))).
+      { intros Hj. cbn [sim_res]. intros _. split; [reflexivity|]. exists 2, (each_state s decl cv). split; [|exact R2].
+        rewrite node_range, Hplan. destruct (vr_nullish cv jc Hvr Hj) as [-> | ->]; reflexivity. }
+      destruct jc; try exact I; try discriminate Hnr; apply Hnull; auto.
+    - (* a collection: the pairs of the two sides are related, the plan iterates them *)
+      assert (Hiter : forall pairs jpairs, Forall2 prel pairs jpairs ->
+                range_plan dot s (decl, [[AVar c []]]) =
+                  Ok (match pairs with [] => RElse (each_state s decl cv) | _ => RIter (each_state s decl cv) pairs end) ->
+                sim_res D (fun fM => exec_node [] fM dot s (NRange (decl, [[AVar c []]]) tb [])) g m
+                        (sdo r <- sem_iter f blk v k body O g m jpairs;
+                         let '(s2, m2) := r in SOk (each_restore v k None None s2, m2))).
+      { intros pairs jpairs Hrel Hpl.
+        apply (sim_map D _ g m _ (each_restore v k None None)).
+        + intros g'. reflexivity.
+        + intros s' g' R'. apply R_restore; [exact Hv| |exact R']. intros k' E. exact (proj1 (Hk k' E)).
+        + apply (sim_res_run D (fun fM => exec_iter [] fM (each_state s decl cv) decl tb pairs)).
+          * intros f0 r0 X Hf. exists (S f0). rewrite node_range, Hpl. cbn [bind fst]. destruct pairs as [|p0 pr]; [|exact X].
+            destruct f0; [exfalso; apply Hf; rewrite <- X; reflexivity|]. rewrite <- X. reflexivity.
+          * apply (iter_sim f blk v k body tb D D' fl IHP IHG Lb); try assumption.
+            -- intros x Hx. apply undead_spec in Hx. destruct Hx as [Hx|Hx]; [left; exact Hx|right].
+               unfold mem in Hx. cbn [existsb] in Hx. apply orb_true_iff in Hx. destruct Hx as [Hx|Hx].
+               ++ left. apply beqb_eq in Hx. exact Hx.
+               ++ right. destruct k as [k'|]; cbn [opt_list existsb] in Hx; [|discriminate Hx].
+                  rewrite orb_false_r in Hx. apply beqb_eq in Hx. subst. reflexivity.
+            -- intros x Hx. apply undead_spec. left. exact Hx.
+            -- intros k' E. exact (proj2 (Hk k' E)). }
+      destruct Hcoll as [(l & l' & items & jitems & Ecv & Ejc & Hh & Hj & HF & Hr)
+                        |(l & l' & items & props & Ecv & Ejc & Hh & Hj & HF)].
+      + (* an array: index and element, in index order *)
+        rewrite Ejc. unfold each_tail. rewrite Hj.
+        apply (Hiter (indexed items) (jindexed jitems) (indexed_rel items jitems HF Hr)).
+        rewrite Hplan, Ecv, Hh. unfold indexed. reflexivity.
+      + (* a data map: key and member, in sorted key order *)
+        rewrite Ejc. unfold each_tail. rewrite Hj. cbv zeta. rewrite (R_grown D s g Rr). cbn [existsb].
+        apply (Hiter _ _ (map_pairs_rel items _ props HF)).
+        rewrite Hplan, Ecv, Hh. reflexivity.
+  Qed.
+
+  (* ---- case --------------------------------------------------------------------------------------------------- *)
+  Lemma case_rest_grows f m blk whens0 D fl e ea el v l t g :
+    G_nodes f ->
+    match case_default whens0 with Some b => lower_list (lw D fl) b = Some el | None => el = [] end ->
+    lower_whens funcs goodb (lower_list (lw D fl)) D e ea el l = Some t ->
+    grows g (sdo c <- case_go v g l; let '(hit, s2) := c in case_run f m blk whens0 hit s2).
+  Proof.
+    intros IHG Hd Hl. pose proof (case_go_grows _ D e ea el v l t g Hl) as Hc.
+    destruct (case_go v g l) as [[hit g2]|fl0| |]; cbn [sbind]; try exact I; try contradiction.
+    destruct Hc as [Hg2 Hh]. apply (grows_trans g g2 _ Hg2).
+    exact (case_run_grows f m blk whens0 D fl el hit g2 IHG Hd Hh).
+  Qed.
+
+  Lemma whens_sim f m blk D fl e ea el whens0 dot v :
+    P_nodes f -> G_nodes f -> lxd D e = Some ea ->
+    match case_default whens0 with Some b => lower_list (lw D fl) b = Some el | None => el = [] end ->
+    forall l t s g, lower_whens funcs goodb (lower_list (lw D fl)) D e ea el l = Some t ->
+      R D s g -> sem_expr efuel g e = SOk (v, g) ->
+      sim_ok D dot s t g m (sdo c <- case_go v g l; let '(hit, s2) := c in case_run f m blk whens0 hit s2).
+  Proof.
+    intros IHP IHG Le Hd. destruct (lxd_inv D e ea Le) as [Ale Lxe]. pose proof (good_lx e ea Lxe) as Ge.
+    induction l as [|[[w|] body] r IH]; intros t s g Hl Rr Ee.
+    - (* no when is left: the default *)
+      cbn [lower_whens] in Hl. injection Hl as <-. cbn [case_go sbind]. unfold case_run.
+      destruct (case_default whens0) as [bd|].
+      + exact (IHP bd m blk g D fl el dot s Hd Rr).
+      + subst el. cbn [sim_ok sim_res]. intros _. split; [reflexivity|]. exists 1, s. split; [reflexivity|exact Rr].
+    - (* a when *)
+      pose proof Hl as Hl0. cbn [lower_whens] in Hl. fold lxd in Hl.
+      destruct (goodb (JBin BSEq e w)) eqn:Gw; [|discriminate].
+      destruct (lxd D w) as [wa|] eqn:Lw; [|discriminate].
+      destruct (lower_list (lw D fl) body) as [b|] eqn:Lb; [|discriminate].
+      destruct (lower_whens funcs goodb (lower_list (lw D fl)) D e ea el r) as [rest|] eqn:Lr; [|discriminate].
+      injection Hl as <-.
+      pose proof (case_rest_grows f m blk whens0 D fl e ea el v _ _ g IHG Hd Hl0) as GA.
+      cbn [case_go] in *. pose proof (exprd_grows D g w wa Lw) as Hg.
+      destruct (sem_expr efuel g w) as [[wv g1]|fl0| |] eqn:Ew; cbn [sbind] in *; try exact I; try contradiction.
+      apply (sim_pre D _ g g1 m _ Hg).
+      { (* what follows the test only adds flags *)
+        destruct (jv_strict_eq v wv) as [[|]|]; cbn [sbind]; try exact I.
+        - exact (IHG body m blk g1 D fl b Lb).
+        - exact (case_rest_grows f m blk whens0 D fl e ea el v r rest g1 IHG Hd Lr). }
+      intros E1. destruct (lxd_inv D w wa Lw) as [Alw Lxw]. pose proof (good_lx w wa Lxw) as Gww.
+      pose proof (H_same w Gww g wv g1 Ew E1) as ->.
+      destruct (jv_strict_eq v wv) as [bb|] eqn:Eq; [|destruct (jv_strict_eq v wv) as [[|]|]; exact I].
+      destruct (H_case e w Gw (env_of s dot) (x_heap s) g v wv (R_on_vars D s g e Rr Ge Ale) (R_on_vars D s g w Rr Gww Alw)
+                       Ee Ew ea wa Lxe Lxw bb Eq) as [vb [Ev Tv]].
+      pose proof (R_after_test D s g (eql_pipe ea wa) vb eq_refl Rr) as RA.
+      apply sim_single. destruct bb; cbn [sbind].
+      + (* the first when that is equal: its body *)
+        unfold case_run.
+        apply (sim_res_run D (fun fM => exec_nodes [] fM dot (after_test s (eql_pipe ea wa) vb (x_heap s)) b)).
+        * intros f0 r0 X _. exists (S f0). rewrite (if_step [] f0 dot s _ b rest vb (x_heap s) true Ev Tv). exact X.
+        * exact (IHP body m blk g D fl b dot _ Lb RA).
+      + (* not equal: the next when *)
+        apply (sim_res_run D (fun fM => exec_nodes [] fM dot (after_test s (eql_pipe ea wa) vb (x_heap s)) rest)).
+        * intros f0 r0 X _. exists (S f0). rewrite (if_step [] f0 dot s _ b rest vb (x_heap s) false Ev Tv). exact X.
+        * exact (IH rest _ g eq_refl RA Ee).
+    - (* a default entry is skipped by the chain *)
+      cbn [lower_whens] in Hl. cbn [case_go]. exact (IH t s g Hl Rr Ee).
+  Qed.
+
+  Lemma case_sim f m blk g D fl e whens t dot s :
+    P_nodes f -> G_nodes f -> lw D (S fl) (PCase e whens) = Some t -> R D s g ->
+    sim_ok D dot s t g m (sem_node globals (S f) m blk g (PCase e whens)).
+  Proof.
+    intros IHP IHG Hl Rr. destruct (lower_case_inv D fl e whens t Hl) as [ea [el [Le [Hd Hw]]]].
+    rewrite sem_case_eq. pose proof (exprd_grows D g e ea Le) as Hg.
+    destruct (sem_expr efuel g e) as [[v g1]|fl0| |] eqn:Ee; cbn [sbind]; try exact I; try contradiction.
+    apply (sim_pre D _ g g1 m _ Hg).
+    - exact (case_rest_grows f m blk whens D fl e ea el v whens t g1 IHG Hd Hw).
+    - intros E1. destruct (lxd_inv D e ea Le) as [_ Lxe].
+      pose proof (H_same e (good_lx e ea Lxe) g v g1 Ee E1) as E. subst g1.
+      exact (whens_sim f m blk D fl e ea el whens dot v IHP IHG Le Hd whens t s g Hw Rr Ee).
   Qed.
 
   Hypothesis void_agree : forall name, is_void name = mem name void_tags.
@@ -768,64 +1550,70 @@ Section Sim.
     induction fs as [|fs [IHns IHn]]; [split; intro; intros; exact I|].
     pose proof (proj1 (grows_all fs)) as Gns. pose proof (proj2 (grows_all fs)) as Gn. split.
     - (* node lists *)
-      intros ns m blk g fl t dot s Hl Rr. destruct ns as [|n r].
+      intros ns m blk g D fl t dot s Hl Rr. destruct ns as [|n r].
       + cbn [lower_list] in Hl. injection Hl as <-. rewrite sem_nodes_nil. cbn [sim_ok sim_res]. intros _.
         split; [reflexivity|]. exists 1, s. split; [reflexivity|exact Rr].
       + rewrite sem_nodes_cons. destruct (lower_list_cons _ _ _ _ Hl) as [ta [tb [Ha [Hb ->]]]].
         apply sim_seq.
-        * exact (Gn n m blk g fl ta Ha).
-        * exact (IHn n m blk g fl ta dot s Ha Rr).
-        * intros g1 m1 _. exact (Gns r m1 blk g1 fl tb Hb).
-        * intros g1 s1 R1. exact (IHns r m blk g1 fl tb dot s1 Hb R1).
+        * exact (Gn n m blk g D fl ta Ha).
+        * exact (IHn n m blk g D fl ta dot s Ha Rr).
+        * intros g1 m1 _. exact (Gns r m1 blk g1 D fl tb Hb).
+        * intros g1 s1 R1. exact (IHns r m blk g1 D fl tb dot s1 Hb R1).
     - (* single nodes *)
-      intros n m blk g fl t dot s Hl Rr. destruct fl as [|fl]; [discriminate|].
+      intros n m blk g D fl t dot s Hl Rr. destruct fl as [|fl]; [discriminate|].
       destruct n as [name inl attrs ablocks body|txt|stmts esc inl|test cons_ alt|e whens|v k obj body|test body
-                     |name params body|name args attrs body| |v|l|]; try discriminate Hl.
+                     |name params body|name args attrs body| |dv|l|]; try discriminate Hl.
       + (* tag *)
         unfold lw in Hl. cbn [lower] in Hl.
         destruct attrs; [|discriminate]. destruct ablocks; [|discriminate].
         destruct (has_delim name); [discriminate|].
-        destruct (lower_list (lower funcs goodb fl) body) as [b|] eqn:Eb; [|discriminate].
+        destruct (lower_list (lower funcs goodb D fl) body) as [b|] eqn:Eb; [|discriminate].
         rewrite sem_tag. cbv zeta. rewrite void_agree in Hl.
         replace (B "<" ++ name ++ [] ++ B ">") with ((B "<" ++ name) ++ B ">") by (cbn [app]; rewrite <- !app_assoc; reflexivity).
-        assert (R2 : R (emit (emit s (B "<" ++ name)) (B ">")) (put g ((B "<" ++ name) ++ B ">"))).
-        { pose proof (R_emit_put _ _ (B ">") (R_emit_put s g (B "<" ++ name) Rr)) as H.
-          destruct H as [Hl' He' Hk' Ho']. split; [exact Hl'|exact He'|exact Hk'|].
-          rewrite Ho', !soutput_put. rewrite <- !app_assoc. reflexivity. }
+        assert (R2 : R D (emit (emit s (B "<" ++ name)) (B ">")) (put g ((B "<" ++ name) ++ B ">"))).
+        { pose proof (R_emit_put D _ _ (B ">") (R_emit_put D s g (B "<" ++ name) Rr)) as H.
+          apply (R_update D _ _ _ _ H); [exact (R_live _ _ _ H)|reflexivity|reflexivity|reflexivity| |].
+          - rewrite (R_out _ _ _ H), !soutput_put. rewrite <- !app_assoc. reflexivity.
+          - intros x _. left. split; reflexivity. }
         destruct (mem name void_tags).
         * injection Hl as <-. cbn [sim_ok sim_res put s_flags]. intros _. split; [reflexivity|].
           exists 3. eexists. split; [reflexivity|exact R2].
         * destruct (beqb name (B "script")); [discriminate|]. injection Hl as <-.
           set (g0 := put g ((B "<" ++ name) ++ B ">")).
-          assert (S0 : sim_ok dot s [NText (B "<" ++ name); NText (B ">")] g m (SOk (g0, m))).
+          assert (S0 : sim_ok D dot s [NText (B "<" ++ name); NText (B ">")] g m (SOk (g0, m))).
           { cbn [sim_ok sim_res]. intros _. split; [reflexivity|]. exists 3. eexists. split; [reflexivity|exact R2]. }
           set (k := fun a : sstate * list (bytes * mixin) => let '(g1, m1) := a in
                     sdo b0 <- sem_nodes globals fs m1 blk g1 body; let '(s3, m3) := b0 in SOk (put s3 (B "</" ++ name ++ B ">"), m3)).
-          refine (sim_seq dot s [NText (B "<" ++ name); NText (B ">")] (b ++ [NText (B "</" ++ name ++ B ">")]) g m
+          refine (sim_seq D dot s [NText (B "<" ++ name); NText (B ">")] (b ++ [NText (B "</" ++ name ++ B ">")]) g m
                           (SOk (g0, m)) k _ S0 _ _).
           -- exists []. reflexivity.
-          -- intros g1 m1 E1. injection E1 as <- <-. unfold k. apply grows_bind; [exact (Gns body m blk g0 fl b Eb)|].
+          -- intros g1 m1 E1. injection E1 as <- <-. unfold k. apply grows_bind; [exact (Gns body m blk g0 D fl b Eb)|].
              intros g3 m3 _. exists []. reflexivity.
           -- intros g1 s1 R1. unfold k.
              set (k2 := fun a : sstate * list (bytes * mixin) => let '(s3, m3) := a in
                         SOk (put s3 (B "</" ++ name ++ B ">"), m3) : sres (sstate * list (bytes * mixin))).
-             refine (sim_seq dot s1 b [NText (B "</" ++ name ++ B ">")] g1 m (sem_nodes globals fs m blk g1 body) k2 _ _ _ _).
-             ++ exact (Gns body m blk g1 fl b Eb).
-             ++ exact (IHns body m blk g1 fl b dot s1 Eb R1).
+             refine (sim_seq D dot s1 b [NText (B "</" ++ name ++ B ">")] g1 m (sem_nodes globals fs m blk g1 body) k2 _ _ _ _).
+             ++ exact (Gns body m blk g1 D fl b Eb).
+             ++ exact (IHns body m blk g1 D fl b dot s1 Eb R1).
              ++ intros g3 m3 _. exists []. reflexivity.
-             ++ intros g3 s3 R3. cbn [sim_ok sim_res put s_flags k2]. intros _. split; [reflexivity|].
-                exists 2. eexists. split; [reflexivity|]. exact (R_emit_put s3 g3 _ R3).
+             ++ intros g3 s3 R3. exact (text_sim D dot s3 g3 m _ R3).
       + (* text *)
         unfold lw in Hl. cbn [lower] in Hl. destruct (plain_text txt); [|discriminate]. injection Hl as <-.
-        rewrite sem_text. cbn [sim_ok sim_res put s_flags]. intros _. split; [reflexivity|].
-        exists 2. eexists. split; [reflexivity|]. exact (R_emit_put s g txt Rr).
+        rewrite sem_text. exact (text_sim D dot s g m txt Rr).
       + (* code *)
-        exact (code_sim fs m blk g stmts esc inl t dot s (lower_code_inv fl stmts esc inl t Hl) Rr).
+        unfold lw in Hl. cbn [lower] in Hl.
+        exact (code_sim fs m blk g D stmts esc inl t dot s (lower_code_inv D stmts esc t Hl) Rr).
       + (* if *)
-        unfold lw in Hl. cbn [lower] in Hl. fold lx in Hl.
-        destruct (lx test) as [ta|] eqn:Lt; [|discriminate].
-        destruct (lower_list (lower funcs goodb fl) cons_) as [th|] eqn:Ec; [|discriminate].
-        rewrite sem_cond. pose proof (expr_grows g test ta Lt) as Hg.
+        unfold lw in Hl. cbn [lower] in Hl. fold lxd in Hl.
+        destruct (lxd D test) as [ta|] eqn:Lt; [|discriminate].
+        destruct (lower_list (lower funcs goodb D fl) cons_) as [th|] eqn:Ec; [|discriminate].
+        assert (Ht : exists el, t = [NIf (pipe1 ta) th el] /\
+                                match alt with Some a' => lower funcs goodb D fl a' = Some el | None => el = [] end).
+        { destruct alt as [a'|].
+          - destruct (lower funcs goodb D fl a') as [el|]; [|discriminate]. injection Hl as <-. exists el. split; reflexivity.
+          - injection Hl as <-. exists []. split; reflexivity. }
+        destruct Ht as [el [-> Hel]]. clear Hl.
+        rewrite sem_cond. pose proof (exprd_grows D g test ta Lt) as Hg.
         destruct (sem_expr efuel g test) as [[j g1]|fl0| |] eqn:Es; cbn [sbind]; try exact I; try contradiction.
         destruct (to_boolean g1 j) as [bb g2] eqn:Eb2.
         pose proof (to_boolean_flags g1 j bb g2 Eb2) as Hg2.
@@ -833,91 +1621,52 @@ Section Sim.
         set (r2 := if bb then sem_nodes globals fs m blk g2 cons_
                    else match alt with Some a' => sem_node globals fs m blk g2 a' | None => SOk (g2, m) end).
         assert (G2 : grows g2 r2).
-        { unfold r2. destruct bb; [exact (Gns cons_ m blk g2 fl th Ec)|].
-          destruct alt as [a'|]; [|apply grows_refl].
-          destruct (lower funcs goodb fl a') as [el|] eqn:Ea; [|discriminate]. exact (Gn a' m blk g2 fl el Ea). }
-        assert (KEY : s_flags g2 = s_flags g ->
-                      exists v, eval_pipeline (env_of s dot) (x_heap s) (pipe1 ta) = Ok (v, x_heap s) /\
-                                truthy (x_heap s) v = Ok bb /\ g2 = g1 /\ R (after_test s (pipe1 ta) v (x_heap s)) g1).
-        { intros Hf. destruct Hg as [l1 E1]. destruct Hg2 as [l2 E2]. rewrite E2, E1 in Hf.
-          destruct (flags_split _ _ _ Hf) as [-> ->]. cbn [app] in E1, E2.
-          destruct (eval_here dot s g test ta j g1 Rr Lt Es E1) as [v [Ev [Hv [_ R1]]]].
-          destruct (vr_truthy (x_heap s) g1 v j Hv) as [T1 T2]. rewrite Eb2 in T1, T2. cbn [fst snd] in T1, T2.
-          exists v. split; [exact (Ev [])|split; [exact T1|split; [exact T2|]]].
-          apply R_after_test; [reflexivity|exact R1]. }
-        assert (Ht : exists el, t = [NIf (pipe1 ta) th el] /\
-                                match alt with Some a' => lower funcs goodb fl a' = Some el | None => el = [] end).
-        { destruct alt as [a'|].
-          - destruct (lower funcs goodb fl a') as [el|]; [|discriminate]. injection Hl as <-. exists el. split; reflexivity.
-          - injection Hl as <-. exists []. split; reflexivity. }
-        destruct Ht as [el [-> Hel]]. clear Hl.
-        apply sim_single. fold r2. unfold sim_res.
-        destruct r2 as [[g' m']|fle| |] eqn:Er2; try exact I.
-        * intros Hf. destruct G2 as [l3 E3]. destruct Hg as [l1 E1]. destruct Hg2 as [l2 E2].
-          assert (F2 : s_flags g2 = s_flags g /\ s_flags g' = s_flags g2).
-          { rewrite E3, E2, E1 in Hf. rewrite !app_assoc in Hf. change (s_flags g) with ([] ++ s_flags g) in Hf at 2.
-            apply app_inv_tail in Hf. apply app_eq_nil in Hf. destruct Hf as [Hf ->].
-            apply app_eq_nil in Hf. destruct Hf as [-> ->]. cbn [app] in *. split; congruence. }
-          destruct F2 as [F2 F3]. destruct (KEY F2) as [v [Ev [Tv [-> RA]]]].
-          unfold r2 in Er2. destruct bb.
-          -- pose proof (IHns cons_ m blk g1 fl th dot _ Ec RA) as SI. unfold sim_ok, sim_res in SI. rewrite Er2 in SI.
-             destruct (SI F3) as [-> [f [s' [X R']]]]. split; [reflexivity|]. exists (S f), s'. split; [|exact R'].
-             rewrite (if_step [] f dot s (pipe1 ta) th el v (x_heap s) true Ev Tv). exact X.
+        { unfold r2. destruct bb; [exact (Gns cons_ m blk g2 D fl th Ec)|].
+          destruct alt as [a'|]; [|apply grows_refl]. exact (Gn a' m blk g2 D fl el Hel). }
+        apply (sim_pre D _ g g1 m r2 Hg); [exact (grows_trans g1 g2 r2 Hg2 G2)|]. intros E1.
+        destruct (eval_here D dot s g test ta j g1 Rr Lt Es E1) as [-> [v [Ev [Hv _]]]].
+        apply (sim_pre D _ g g2 m r2 Hg2 G2). intros E2.
+        destruct (vr_truthy (x_heap s) g v j Hv) as [T1 T2]. rewrite Eb2 in T1, T2. cbn [fst snd] in T1, T2. subst g2.
+        pose proof (R_after_test D s g (pipe1 ta) v eq_refl Rr) as RA.
+        apply sim_single. unfold r2. destruct bb.
+        * apply (sim_res_run D (fun fM => exec_nodes [] fM dot (after_test s (pipe1 ta) v (x_heap s)) th)).
+          -- intros f0 r0 X _. exists (S f0). rewrite (if_step [] f0 dot s (pipe1 ta) th el v (x_heap s) true (Ev []) T1). exact X.
+          -- exact (IHns cons_ m blk g D fl th dot _ Ec RA).
+        * apply (sim_res_run D (fun fM => exec_nodes [] fM dot (after_test s (pipe1 ta) v (x_heap s)) el)).
+          -- intros f0 r0 X _. exists (S f0). rewrite (if_step [] f0 dot s (pipe1 ta) th el v (x_heap s) false (Ev []) T1). exact X.
           -- destruct alt as [a'|].
-             ++ pose proof (IHn a' m blk g1 fl el dot _ Hel RA) as SI. unfold sim_ok, sim_res in SI. rewrite Er2 in SI.
-                destruct (SI F3) as [-> [f [s' [X R']]]]. split; [reflexivity|]. exists (S f), s'. split; [|exact R'].
-                rewrite (if_step [] f dot s (pipe1 ta) th el v (x_heap s) false Ev Tv). exact X.
-             ++ subst el. injection Er2 as <- <-. split; [reflexivity|].
-                exists 2, (after_test s (pipe1 ta) v (x_heap s)). split; [|exact RA].
-                rewrite (if_step [] 1 dot s (pipe1 ta) th [] v (x_heap s) false Ev Tv). reflexivity.
-        * intros Hf. destruct G2 as [l3 E3]. destruct Hg as [l1 E1]. destruct Hg2 as [l2 E2].
-          assert (F2 : s_flags g2 = s_flags g /\ fle = s_flags g2).
-          { rewrite E3, E2, E1 in Hf. rewrite !app_assoc in Hf. change (s_flags g) with ([] ++ s_flags g) in Hf at 2.
-            apply app_inv_tail in Hf. apply app_eq_nil in Hf. destruct Hf as [Hf ->].
-            apply app_eq_nil in Hf. destruct Hf as [-> ->]. cbn [app] in *. split; congruence. }
-          destruct F2 as [F2 F3]. destruct (KEY F2) as [v [Ev [Tv [-> RA]]]].
-          unfold r2 in Er2. destruct bb.
-          -- pose proof (IHns cons_ m blk g1 fl th dot _ Ec RA) as SI. unfold sim_ok, sim_res in SI. rewrite Er2 in SI.
-             destruct (SI F3) as [f X]. exists (S f).
-             rewrite (if_step [] f dot s (pipe1 ta) th el v (x_heap s) true Ev Tv). exact X.
-          -- destruct alt as [a'|]; [|discriminate Er2].
-             pose proof (IHn a' m blk g1 fl el dot _ Hel RA) as SI. unfold sim_ok, sim_res in SI. rewrite Er2 in SI.
-             destruct (SI F3) as [f X]. exists (S f).
-             rewrite (if_step [] f dot s (pipe1 ta) th el v (x_heap s) false Ev Tv). exact X.
+             ++ exact (IHn a' m blk g D fl el dot _ Hel RA).
+             ++ subst el. cbn [sim_res]. intros _. split; [reflexivity|]. exists 1. eexists. split; [reflexivity|exact RA].
+      + (* case *) exact (case_sim fs m blk g D fl e whens t dot s IHns Gns Hl Rr).
+      + (* each *)
+        destruct (lower_each_inv D fl v k obj body t Hl) as [c [tb [-> [Hc [Hv [Hk [Hb ->]]]]]]].
+        apply sim_single. exact (each_sim fs m blk g D fl v k c body tb dot s IHns Gns Hc Hv Hk Hb Rr).
       + (* while *)
-        unfold lw in Hl. cbn [lower] in Hl. fold lx in Hl.
-        destruct (lx test) as [ta|] eqn:Lt; [|discriminate].
-        destruct (lower_list (lower funcs goodb fl) body) as [tb|] eqn:Ebd; [|discriminate]. injection Hl as <-.
+        unfold lw in Hl. cbn [lower] in Hl. fold lxd in Hl.
+        destruct (lxd D test) as [ta|] eqn:Lt; [|discriminate].
+        destruct (lower_list (lower funcs goodb D fl) body) as [tb|] eqn:Ebd; [|discriminate]. injection Hl as <-.
         rewrite sem_while_eq. apply sim_single. destruct fs as [|fs']; [exact I|].
-        rewrite sem_while_step. pose proof (expr_grows g test ta Lt) as Hg.
+        rewrite sem_while_step. pose proof (exprd_grows D g test ta Lt) as Hg.
         destruct (sem_expr efuel g test) as [[j g1]|fl0| |] eqn:Es; cbn [sbind]; try exact I; try contradiction.
         destruct j as [| |[|]| | | |]; try exact I.
         * (* the loop is entered *)
-          pose proof (while_sim (S fs') blk test body ta tb fl IHns Gns Lt Ebd fs' while_limit g1 m) as WS.
-          pose proof (after_true_grows (S fs') blk test body ta tb fl Gns Lt Ebd while_limit fs' g1 m) as GA.
-          destruct (after_true (S fs') blk test body while_limit fs' g1 m) as [[g' m']|fle| |] eqn:EA; cbn [sim_res]; try exact I.
-          -- intros Hf. destruct GA as [l3 E3]. destruct Hg as [l1 E1]. rewrite E3, E1 in Hf.
-             destruct (flags_split _ _ _ Hf) as [-> ->]. cbn [app] in E1, E3.
-             destruct (range_plan_test dot s g test ta (JB true) g1 Rr Lt Es E1) as [v [Hv [R1 Ep]]].
-             assert (Tv : is_true v) by (destruct (vr_bool v true Hv) as [->| ->]; [left|right]; reflexivity).
-             specialize (WS (plan_state s v) v dot R1 Tv). cbn [sim_res] in WS.
-             destruct (WS E3) as [-> [fw [s' [Xw R']]]]. split; [reflexivity|]. exists (S fw), s'. split; [|exact R'].
-             rewrite node_range, Ep. rewrite cap_is_limit.
-             destruct Tv as [-> | ->]; exact Xw.
-          -- intros Hf. destruct GA as [l3 E3]. destruct Hg as [l1 E1]. rewrite E3, E1 in Hf.
-             destruct (flags_split _ _ _ Hf) as [-> ->]. cbn [app] in E1, E3.
-             destruct (range_plan_test dot s g test ta (JB true) g1 Rr Lt Es E1) as [v [Hv [R1 Ep]]].
-             assert (Tv : is_true v) by (destruct (vr_bool v true Hv) as [->| ->]; [left|right]; reflexivity).
-             specialize (WS (plan_state s v) v dot R1 Tv). cbn [sim_res] in WS.
-             destruct (WS E3) as [fw Xw]. exists (S fw).
-             rewrite node_range, Ep. rewrite cap_is_limit.
-             destruct Tv as [-> | ->]; exact Xw.
+          pose proof (after_true_grows (S fs') blk test body ta tb D fl Gns Lt Ebd while_limit fs' g1 m) as GA.
+          apply (sim_pre D _ g g1 m _ Hg GA). intros E1.
+          destruct (range_plan_test D dot s g test ta (JB true) g1 Rr Lt Es E1) as [-> [v [Hv [R1 Ep]]]].
+          assert (Tv : is_true v) by (destruct (vr_bool v true Hv) as [->| ->]; [left|right]; reflexivity).
+          apply (sim_res_run D (fun fM => exec_while [] fM dot (plan_state s v) (pipe1 ta) tb while_limit v)).
+          -- intros f0 r0 X _. exists (S f0). rewrite node_range, Ep. rewrite cap_is_limit.
+             destruct Tv as [-> | ->]; exact X.
+          -- exact (while_sim (S fs') blk test body ta tb D fl IHns Gns Lt Ebd fs' while_limit g m (plan_state s v) v dot R1 Tv).
         * (* false on entry *)
-          cbn [sim_res]. intros Hf. destruct (range_plan_test dot s g test ta (JB false) g1 Rr Lt Es Hf) as [v [Hv [R1 Ep]]].
+          cbn [sim_res]. intros Hf. destruct (range_plan_test D dot s g test ta (JB false) g1 Rr Lt Es Hf) as [-> [v [Hv [R1 Ep]]]].
           split; [reflexivity|]. exists 1, (plan_state s v). split; [|exact R1].
           rewrite node_range, Ep. destruct (vr_bool v false Hv) as [-> | ->]; reflexivity.
+      + (* doctype *)
+        unfold lw in Hl. cbn [lower] in Hl. destruct (has_delim dv); [discriminate|]. injection Hl as <-.
+        rewrite sem_doctype. exact (text_sim D dot s g m _ Rr).
       + (* block *)
-        rewrite sem_block. unfold lw in Hl. cbn [lower] in Hl. exact (IHns l m blk g fl t dot s Hl Rr).
+        rewrite sem_block. unfold lw in Hl. cbn [lower] in Hl. exact (IHns l m blk g D fl t dot s Hl Rr).
       + (* comment *)
         unfold lw in Hl. cbn [lower] in Hl. injection Hl as <-. rewrite sem_comment. cbn [sim_ok sim_res]. intros _.
         split; [reflexivity|]. exists 1, s. split; [reflexivity|exact Rr].
